@@ -1,73 +1,100 @@
 """C15 - upstream certificates are verified unless verification is disabled.
 
-Decided (configuration dataflow and failure-path structure; OpenSSL's own chain/name checking is trusted):
-  R15.1 ``TlsConfig.tls_start_server``: in the world ssl_insecure=False every feasible path hands ``net_tls.Verify.VERIFY_PEER`` to
-        ``create_proxy_server_context(verify=...)``, in the world ssl_insecure=True ``VERIFY_NONE``; ``Verify`` members are the
-        OpenSSL constants of the same name; ``create_proxy_server_context`` calls ``context.set_verify(verify.value, None)`` on the
-        returned context on every path (no callback that could override the verdict) and nothing else calls ``set_verify`` on the
-        server side; same table for ``quic_start_server`` (``ssl.CERT_REQUIRED`` / ``ssl.CERT_NONE``) flowing unchanged into
-        ``QuicConfiguration(verify_mode=...)``.
-  R15.2 host-name binding: on every path with ``server.sni`` set, ``X509_VERIFY_PARAM_set_hostflags(param, DEFAULT_HOSTFLAGS)`` is
-        followed by exactly one of ``set1_host`` (ValueError branch = DNS name) / ``set1_ip`` (IP literal), applied to the param of
-        *this* connection, fed from ``server.sni``, each followed by ``_openssl_assert(ok == 1)``; ``DEFAULT_HOSTFLAGS`` contains
-        NO_PARTIAL_WILDCARDS and NEVER_CHECK_SUBJECT and no weakening flag; without SNI and ssl_insecure=False the function raises.
-  R15.3 trust store of ``create_proxy_server_context``: ``load_verify_locations(ca_pemfile, ca_path)`` on every returning path; certifi's
-        bundle replaces ``ca_pemfile`` exactly in the world where both are None; the two arguments come from the options
-        ``ssl_verify_upstream_trusted_ca`` / ``ssl_verify_upstream_trusted_confdir`` (also for QUIC).
-  R15.4 failure path: ``TLSLayer.receive_handshake_data`` answers ``(False, err)`` on every path through its ``SSL.Error`` handler;
-        ``TunnelLayer._handle_event`` then runs ``on_handshake_error`` before ``_handshake_finished``; the on_handshake_error chain
-        (ServerTLSLayer -> TLSLayer -> TunnelLayer) sets ``conn.error``, fires ``TlsFailedServerHook`` and closes the connection;
-        ``_handshake_finished(err)`` closes the tunnel and answers ``OpenConnectionCompleted(cmd, err)``; ``HttpClient`` builds no
-        protocol layer and yields ``RegisterHttpConnection(server, err)``; ``register_connection`` replies ``(None, err)``;
-        ``make_server_connection`` turns it into a CONNECT_FAILED protocol error and its callers send nothing (no ``SendHttp``)
-        afterwards.
-        The three HTTP-layer steps (HttpClient, register_connection, make_server_connection) are read by value with C08's
-        path analysis: the outcome of OpenConnection / the unpacked reply of GetHttpConnection are symbols followed through
-        renamed locals, temporaries, conditional expressions and extracted `self.<helper>()` calls.
-Not decided: the verdict of OpenSSL / aioquic on concrete certificate chains.
+How it is decided.  The configuration side (R15.1-R15.3) and the failure path through the TLS / tunnel layers (R15.4, first half) are decided
+by *interpreting* the repository's code (``mitmlint/pyint.py``: AST interpreter; repository code is never imported or run) against a
+recording model of the libraries it configures - nothing is matched syntactically there:
+
+  * ``TlsConfig.tls_start_server`` is interpreted as a whole (together with everything it calls: ``create_proxy_server_context``,
+    ``_create_ssl_context``, extracted helpers, module constants) in concrete worlds - ssl_insecure on/off x SNI is a DNS name / IPv4 / IPv6
+    literal / missing x trust-store options set / unset x OpenSSL accepting or refusing the identity - against a model of pyOpenSSL
+    (``SSL.Context``, ``SSL.Connection``, ``SSL._lib.X509_VERIFY_PARAM_*``, ``SSL._openssl_assert``) that records what it is configured to do.
+    The rules speak about the *resulting configuration of the connection handed to the proxy core* (``tls_start.ssl_conn``): the verify mode and
+    callback in force, the host flags / host name / IP address in force on the X509 verify parameters of *this* connection, the trust
+    locations loaded into its context.  Renamed locals, inverted or moved branches, conditional expressions, extracted helpers, try/except
+    restructured into if/else, added assertions / logging / annotations are simply interpreted.
+  * ``ServerTLSLayer`` (TLSLayer / TunnelLayer through the real MRO, built by interpreting the repository's constructors) is driven with a
+    ``DataReceived`` event while ESTABLISHING against an OpenSSL connection whose ``do_handshake`` fails with each kind of ``SSL.Error`` the
+    layer distinguishes; the rule looks at what the layer *does* (commands yielded, events handed to the child layer, connection / tunnel state).
+  * Libraries outside the model (aioquic, cryptography, logging, ...) are opaque: calls on them have no effect and an opaque value may flow
+    anywhere except into a decision (then: AnalysisError, never a guess).
+
+Decided:
+  R15.1 the connection created by ``tls_start_server`` verifies its peer iff ssl_insecure is off: verify mode in force (context ``set_verify`` /
+        connection ``set_verify``, the last one wins) has VERIFY_PEER set and no callback that accepts a failed verification in the world
+        ssl_insecure=False, is VERIFY_NONE in the world ssl_insecure=True (``Verify`` members, ``verify.value`` and the OpenSSL constants are
+        part of the interpreted flow); ``quic_start_server`` + ``tls_settings_to_configuration`` hand ``ssl.CERT_REQUIRED`` / ``ssl.CERT_NONE``
+        to ``QuicConfiguration(verify_mode=...)`` in the same two worlds.
+  R15.2 host-name binding (worlds with ssl_insecure off): the X509 verify parameters of *this* connection end up with host flags that contain
+        NO_PARTIAL_WILDCARDS and NEVER_CHECK_SUBJECT and no weakening flag, and with exactly the identity of ``server.sni``: the IDNA name for
+        DNS names (no IP), the packed address for IPv4 / IPv6 literals (no host name); when OpenSSL refuses the identity (set1_host / set1_ip
+        return 0) the function does not complete; without SNI the function raises.
+  R15.3 trust store: the context of the connection has loaded exactly ``load_verify_locations(ssl_verify_upstream_trusted_ca,
+        ssl_verify_upstream_trusted_confdir)`` in the three worlds where one of the options is set and certifi's bundle alone in the world
+        where none is (no default verify paths, nothing else); the same two options reach ``QuicConfiguration(cafile=, capath=)``.
+  R15.4 failure path: for every kind of handshake ``SSL.Error`` (certificate verify failed (both OpenSSL spellings), alert unknown ca / bad
+        certificate, not TLS, protocol version, unknown error queue, empty error, plus one world per OpenSSL error-queue entry that
+        layers/tls.py mentions anywhere - so every branch of the error classification is exercised) the server TLS layer sets ``conn.error`` to a non-empty
+        text, fires exactly one ``TlsFailedServerHook`` for this connection (no established / client hook), closes the connection, ends with the
+        tunnel CLOSED, sends no data, hands the child layer nothing but - when the child asked for the connection - one
+        ``OpenConnectionCompleted(cmd, <that error>)`` *after* hook and close, and does not raise.
+        ``HttpClient`` then builds no protocol layer and yields ``RegisterHttpConnection(server, err)``; ``register_connection`` replies
+        ``(None, err)``; ``make_server_connection`` turns it into a CONNECT_FAILED protocol error and its callers send nothing (no ``SendHttp``)
+        afterwards.  These three HTTP-layer steps are read by value with C08's path analysis: the outcome of OpenConnection / the unpacked reply
+        of GetHttpConnection are symbols followed through renamed locals, temporaries, conditional expressions and extracted `self.<helper>()`
+        calls.
+Not decided: the verdict of OpenSSL / aioquic on concrete certificate chains (library; trusted), QUIC handshake failure handling.
 """
 
 from __future__ import annotations
 
 import ast
+import collections
+import enum
+import ipaddress
+import logging
+import posixpath
+import re
+import ssl as _ssl_consts
+import struct
+import types
 
 from ..core import AnalysisError
 from ..core import norm
-from ..model import attr_chain
 from ..model import call_name
 from ..model import calls_in
 from ..model import last_attr
-from ..model import walk_in_order
 from ..paths import C
 from ..paths import index_of
-from ..paths import R
 from ..paths import traces_of
+from ..pyint import _Return
+from ..pyint import ClassRef
+from ..pyint import Func
+from ..pyint import Gen
+from ..pyint import Interp
+from ..pyint import Raised
+from ..pyint import Rec
 from ..selftest import Mutant
-from .C08 import helper_resolver
 from .C08 import canon_chain
 from .C08 import DSpec
+from .C08 import helper_resolver
 from .C08 import run_d
 from .C08 import server_connection_paths
 from .C08 import sym
 from .C08 import truthiness_subject
 from .C08 import waiter_replies
-from ._helpers_B import ceval
-from ._helpers_B import consistent
-from ._helpers_B import feasible
 from ._helpers_B import FlowSpec
-from ._helpers_B import local_defs
-from ._helpers_B import mentions
-from ._helpers_B import NotAnAtom
 
 PROP = "C15"
 REG = {
     "strength": "partial",
-    "technique": "path enumeration with conditions evaluated in concrete option worlds (ssl_insecure, trust-store options), dataflow of "
-    "verify/param/host arguments, flag-constant evaluation, must-follow facts along the handshake failure chain (helpers inlined)",
-    "claim": "with ssl_insecure off the server context is created with VERIFY_PEER and no verify callback, the host name / IP of the SNI is bound "
-    "to the connection's X509 verify parameters with strict host flags (or the function raises), the configured trust store is always "
-    "loaded, and a failed handshake is reported as a connection error through every layer without any SendHttp to that server.",
-    "note": "OpenSSL / aioquic verification of concrete chains is library behaviour (trusted).",
+    "technique": "semantic interpretation (pyint) of tls_start_server / create_proxy_server_context / quic_start_server and of ServerTLSLayer's handshake-failure "
+    "handling against a recording model of pyOpenSSL / aioquic in concrete option worlds (ssl_insecure, SNI kind, trust-store options, OpenSSL results); "
+    "value-based path analysis (helpers inlined) for the HTTP-layer part of the failure chain",
+    "claim": "with ssl_insecure off the connection handed to the proxy core verifies its peer (VERIFY_PEER, no accepting callback), has the host name / IP of "
+    "the SNI bound to its own X509 verify parameters with strict host flags (or the function raises), has exactly the configured trust store loaded, and "
+    "a failed handshake is reported as a connection error through every layer (conn.error, tls_failed hook, close, OpenConnectionCompleted(err), "
+    "CONNECT_FAILED) without any SendHttp to that server.",
+    "note": "OpenSSL / aioquic verification of concrete chains is library behaviour (trusted); the pyOpenSSL model is this module's.",
 }
 T = "mitmproxy/addons/tlsconfig.py"
 NT = "mitmproxy/net/tls.py"
@@ -75,124 +102,173 @@ PT = "mitmproxy/proxy/layers/tls.py"
 TU = "mitmproxy/proxy/tunnel.py"
 HT = "mitmproxy/proxy/layers/http/__init__.py"
 QS = "mitmproxy/proxy/layers/quic/_stream_layers.py"
-
-INSECURE = "ctx.options.ssl_insecure"
-
-
-def insecure_atom(value):
-    def atom(node, env):
-        if isinstance(node, ast.Attribute) and attr_chain(node) == INSECURE:
-            return value
-        if isinstance(node, (ast.Attribute, ast.Name, ast.Call)):
-            raise AnalysisError(f"condition mixes ssl_insecure with something not modelled: {norm(node)}")
-        raise NotAnAtom
-
-    return atom
+CONN = "mitmproxy/connection.py"
+CMDS = "mitmproxy/proxy/commands.py"
+EVTS = "mitmproxy/proxy/events.py"
+OPTS = "mitmproxy/options.py"
 
 
-class VerifySpec(FlowSpec):
-    def refs_are_distinct(self, a, b):
-        return (a.startswith("net_tls.Verify.") and b.startswith("net_tls.Verify.")) or super().refs_are_distinct(a, b)
+# ---------------------------------------------------------------------------------------------------
+# the modelled outside world: recording stubs of pyOpenSSL / certifi / os / aioquic.  Everything else that is not repository code is opaque.
 
 
-def _r15_1(ctx):
-    m = ctx.model
-    tss = ctx.func(T, "TlsConfig.tls_start_server")
-    where = (T, "TlsConfig.tls_start_server", tss)
-    CREATE = "net_tls.create_proxy_server_context"
-    creates = calls_in(tss, CREATE)
-    ctx.require(len(creates) == 1, f"tls_start_server: {len(creates)} calls of {CREATE} (exactly one modelled)")
-    ctx.require(all(k.arg for k in creates[0].keywords) and not creates[0].args, "create_proxy_server_context called with positional/** arguments (not modelled)")
-
-    class S(VerifySpec):
-        def events(self, node, st):
-            out = list(super().events(node, st))
-            for n in ast.walk(node):
-                if n is creates[0]:
-                    kw = {k.arg: k.value for k in n.keywords}
-                    out.append(("create", self.value(kw["verify"], st, 0) if "verify" in kw else None))
-            return out
-
-    spec = S(keep=lambda ev: ev[0] == "create" or (ev[0] == "cond" and INSECURE in ev[1]), implicit_raises=False)
-    res, eng = traces_of(tss, spec)
-    ctx.paths += len(res)
-    ctx.require(any(e[0] == "cond" for t, _, _ in res for e in t), "tls_start_server no longer branches on ctx.options.ssl_insecure (shape not modelled)")
-    for insecure, want in ((False, R("net_tls.Verify.VERIFY_PEER")), (True, R("net_tls.Verify.VERIFY_NONE"))):
-        got = set()
-        for t, how, st in res:
-            if not feasible(t, lambda n: mentions(n, INSECURE), insecure_atom(insecure), what="tls_start_server"):
-                continue
-            for e in t:
-                if e[0] == "create":
-                    got.add(e[1])
-        ctx.require(got, f"tls_start_server: no feasible path reaches create_proxy_server_context with ssl_insecure={insecure}")
-        ctx.check(got == {want}, "R15.1", where, f"verify argument with ssl_insecure={insecure}",
-                  f"create_proxy_server_context receives verify in {sorted(map(str, got))}, expected {want[1]}: "
-                  + ("upstream certificates are not verified although ssl_insecure is off" if not insecure else "ssl_insecure does not disable verification"),
-                  desc=f"ssl_insecure={insecure} -> verify={want[1]}")
-    # Verify enum
-    vc = m.cls(NT, "Verify")
-    members = {t.id: norm(s.value) for s in vc.body if isinstance(s, ast.Assign) for t in s.targets if isinstance(t, ast.Name)}
-    ctx.check(members.get("VERIFY_PEER") == "SSL.VERIFY_PEER" and members.get("VERIFY_NONE") == "SSL.VERIFY_NONE", "R15.1", (NT, "Verify", vc), "Verify.VERIFY_PEER = SSL.VERIFY_PEER",
-              f"the Verify enum no longer maps to the OpenSSL constants of the same name: {members}", desc="Verify members are the OpenSSL constants")
-    # set_verify in create_proxy_server_context
-    cps = ctx.func(NT, "create_proxy_server_context")
-    ctx.require("verify" in [a.arg for a in cps.args.kwonlyargs + cps.args.args], "create_proxy_server_context lost its verify parameter")
-    ctx.require(not local_defs(cps, "verify"), "create_proxy_server_context rebinds verify (not modelled)")
-    spec = FlowSpec(keep=lambda ev: ev[0] in ("callx", "ret") and (ev[0] == "ret" or ev[1].endswith(".set_verify")), call_nodes=True, ret_nodes=True)
-    res, eng = traces_of(cps, spec)
-    bad = 0
-    nret = 0
-    for t, how, st in res:
-        if how != "return":
-            continue
-        nret += 1
-        ret = [e for e in t if e[0] == "ret"]
-        sv = [e for e in t if e[0] == "callx"]
-        ok = (
-            len(ret) == 1 and isinstance(ret[0][1], ast.Name) and len(sv) == 1
-            and sv[0][1] == ret[0][1].id + ".set_verify"
-            and len(sv[0][2].args) == 2 and not sv[0][2].keywords
-            and norm(sv[0][2].args[0]) == "verify.value"
-            and isinstance(sv[0][2].args[1], ast.Constant) and sv[0][2].args[1].value is None
-        )
-        bad += not ok
-    ctx.require(nret > 0, "create_proxy_server_context has no returning path")
-    ctx.paths += nret
-    ctx.check(bad == 0, "R15.1", (NT, "create_proxy_server_context", cps), "context.set_verify(verify.value, None)",
-              f"{bad} returning path(s) do not install exactly `set_verify(verify.value, None)` on the returned context (a callback could override the verdict, or the mode is not the requested one)",
-              desc="set_verify(verify.value, None) exactly once on every returning path")
-    # nobody else touches the verify mode of the server-side context / connection
-    others = [c for f in (ctx.func(NT, "_create_ssl_context"), tss) for c in calls_in(f) if call_name(c).endswith(".set_verify") or call_name(c).endswith("set_verify_depth")]
-    ctx.check(not others, "R15.1", (T, "TlsConfig.tls_start_server", others[0] if others else tss), "additional set_verify on the server side",
-              "the verify mode is changed again after create_proxy_server_context configured it", desc="no other set_verify in _create_ssl_context / tls_start_server")
-    # QUIC
-    qss = ctx.func(T, "TlsConfig.quic_start_server")
-    VM = "tls_start.settings.verify_mode"
-    spec = FlowSpec(keep=lambda ev: (ev[0] == "cond" and INSECURE in ev[1]) or (ev[0] == "assignx" and ev[1] == VM), assign_nodes=True, implicit_raises=False)
-    res, eng = traces_of(qss, spec)
-    for insecure, want in ((False, "ssl.CERT_REQUIRED"), (True, "ssl.CERT_NONE")):
-        got = set()
-        for t, how, st in res:
-            if how != "return" or not feasible(t, lambda n: mentions(n, INSECURE), insecure_atom(insecure), what="quic_start_server"):
-                continue
-            vals = [norm(e[2]) for e in t if e[0] == "assignx"]
-            if any(e[0] == "cond" for e in t):  # paths past the early return
-                got.add(vals[-1] if vals else "<unset>")
-        ctx.require(got, f"quic_start_server: no feasible configuring path with ssl_insecure={insecure}")
-        ctx.check(got == {want}, "R15.1", (T, "TlsConfig.quic_start_server", qss), f"QUIC verify_mode with ssl_insecure={insecure}",
-                  f"verify_mode is {sorted(got)}, expected {want}", desc=f"QUIC ssl_insecure={insecure} -> {want}")
-    conv = ctx.func(QS, "tls_settings_to_configuration")
-    qc = [c for c in calls_in(conv) if call_name(c).endswith("QuicConfiguration")]
-    ctx.require(len(qc) == 1, "tls_settings_to_configuration no longer builds one QuicConfiguration")
-    kw = {k.arg: norm(k.value) for k in qc[0].keywords}
-    ctx.check(kw.get("verify_mode") == "settings.verify_mode" and kw.get("cafile") == "settings.ca_file" and kw.get("capath") == "settings.ca_path", "R15.1",
-              (QS, "tls_settings_to_configuration", qc[0]), "QuicConfiguration(verify_mode=settings.verify_mode, cafile=..., capath=...)",
-              f"the QUIC settings do not reach aioquic unchanged: {kw.get('verify_mode')}, {kw.get('cafile')}, {kw.get('capath')}", desc="QUIC settings reach QuicConfiguration unchanged")
-    ctx.expect_instances("R15.1", 8)
+class _Stub:
+    """marker: objects of the model (the interpreter calls them directly, also with abstract records as arguments)"""
 
 
-# flag bits as in openssl/x509v3.h (only their distinctness matters)
+def _stub(fn):
+    fn._c15_stub = True
+    return fn
+
+
+class _Opaque(_Stub):
+    """A value of a library outside the model.  Attribute access and calls give opaque values again (no effect on the modelled world);
+    using it in a decision, a comparison, arithmetic or an iteration is an AnalysisError."""
+
+    def __init__(self, path):
+        object.__setattr__(self, "_path", path)
+
+    def __getattr__(self, k):
+        if k.startswith("__"):
+            raise AttributeError(k)
+        return _Opaque(f"{self._path}.{k}")
+
+    def __call__(self, *a, **k):
+        if any(isinstance(x, Func) for x in list(a) + list(k.values())):
+            raise AnalysisError(f"C15 world model: a repository function is handed to `{self._path}` (library outside the model): whether / when it is called is not modelled")
+        return _Opaque(f"{self._path}()")
+
+    def _refuse(self, *a, **k):
+        raise AnalysisError(f"C15 world model: a decision depends on the value of `{self._path}` (library outside the model)")
+
+    __bool__ = __eq__ = __ne__ = __lt__ = __le__ = __gt__ = __ge__ = __iter__ = __len__ = __getitem__ = __contains__ = _refuse
+    __add__ = __radd__ = __sub__ = __or__ = __ror__ = __and__ = __rand__ = __int__ = __index__ = _refuse
+    __hash__ = object.__hash__
+
+    def __repr__(self):
+        return f"<{self._path}>"
+
+
+class _NullLogger(_Stub):
+    def isEnabledFor(self, level):
+        return False
+
+    def getEffectiveLevel(self):
+        return logging.WARNING
+
+    def getChild(self, name):
+        return self
+
+    def __getattr__(self, k):
+        if k.startswith("__"):
+            raise AttributeError(k)
+        return _stub(lambda *a, **kw: None)
+
+
+class _Logging(_Stub):
+    """the logging module without its effects"""
+
+    def getLogger(self, name=None):
+        return _NullLogger()
+
+    def __getattr__(self, k):
+        if k.startswith("__"):
+            raise AttributeError(k)
+        v = getattr(logging, k)
+        if isinstance(v, (int, str)):
+            return v
+        return _stub(lambda *a, **kw: None)
+
+
+class _OsPath(_Stub):
+    """os.path on an empty file system"""
+
+    join, basename, dirname, splitext, normpath, isabs = (staticmethod(f) for f in (posixpath.join, posixpath.basename, posixpath.dirname, posixpath.splitext, posixpath.normpath, posixpath.isabs))
+    sep = "/"
+
+    def expanduser(self, p):
+        return p
+
+    def isfile(self, p):
+        return False
+
+    isdir = exists = islink = isfile
+
+    def __getattr__(self, k):
+        if k.startswith("__"):
+            raise AttributeError(k)
+        return _Opaque(f"os.path.{k}")
+
+
+class _OsModule(_Stub):
+    """os: no environment variables, an empty file system"""
+
+    sep, name, linesep = "/", "posix", "\n"
+
+    def __init__(self):
+        self.path = _OsPath()
+        self.environ = {}
+
+    def getenv(self, key, default=None):
+        return default
+
+    def fspath(self, p):
+        return p
+
+    def __getattr__(self, k):
+        if k.startswith("__"):
+            raise AttributeError(k)
+        return _Opaque(f"os.{k}")
+
+
+class _Trusted(dict):
+    """pyint's table of non-repository modules: the registered models / pure stdlib modules, everything else opaque (repository modules and
+    ``typing`` are left to pyint)."""
+
+    def __contains__(self, target):
+        if not isinstance(target, str):
+            return False
+        root = target.split(".")[0]
+        return root not in ("mitmproxy", "typing")
+
+    def __getitem__(self, target):
+        parts = target.split(".")
+        for i in range(len(parts), 0, -1):
+            k = ".".join(parts[:i])
+            if dict.__contains__(self, k):
+                obj = dict.__getitem__(self, k)
+                for p in parts[i:]:
+                    try:
+                        obj = getattr(obj, p)
+                    except AttributeError:
+                        raise AnalysisError(f"C15 world model: `{target}` is not part of the model of `{k}`")
+                return obj
+        return _Opaque(target)
+
+
+class Error(Exception):  # the names are what `except SSL.<Name>` handlers are matched by
+    pass
+
+
+class WantReadError(Error):
+    pass
+
+
+class WantWriteError(Error):
+    pass
+
+
+class ZeroReturnError(Error):
+    pass
+
+
+class SysCallError(Error):
+    pass
+
+
+_SSL_EXC = {c.__name__: c for c in (Error, WantReadError, WantWriteError, ZeroReturnError, SysCallError)}
+
+# flag bits as in openssl/x509v3.h
 HOSTFLAG_BITS = {
     "X509_CHECK_FLAG_ALWAYS_CHECK_SUBJECT": 0x1,
     "X509_CHECK_FLAG_NO_WILDCARDS": 0x2,
@@ -201,271 +277,1004 @@ HOSTFLAG_BITS = {
     "X509_CHECK_FLAG_SINGLE_LABEL_SUBDOMAINS": 0x10,
     "X509_CHECK_FLAG_NEVER_CHECK_SUBJECT": 0x20,
 }
+VERIFY_NONE, VERIFY_PEER, VERIFY_FAIL_IF_NO_PEER_CERT, VERIFY_CLIENT_ONCE = 0, 1, 2, 4
+CERTIFI = "<certifi's CA bundle>"
+# SSL._lib functions that configure verification in a way the model does not know: their use is an AnalysisError, not a guess
+_UNMODELLED_LIB = re.compile(r"X509_VERIFY_PARAM_|X509_STORE|SSL_(CTX_)?(set|add)1?_host|SSL_(CTX_)?set_hostflags|SSL_(CTX_)?set_verify|SSL_(CTX_)?set1_param|SSL_CTX_load_verify|SSL_CTX_set_default_verify|SSL_(CTX_)?dane|SSL_(CTX_)?set_cert_verify_callback|SSL_CTX_get0_param")
 
 
-def _hostflags_atom(node, env):
-    if isinstance(node, ast.Attribute) and node.attr in HOSTFLAG_BITS and attr_chain(node.value) == "SSL._lib":
-        return HOSTFLAG_BITS[node.attr]
-    if isinstance(node, ast.Call) and call_name(node) == "getattr" and len(node.args) in (2, 3) and attr_chain(node.args[0]) == "SSL._lib" and isinstance(node.args[1], ast.Constant):
-        if node.args[1].value in HOSTFLAG_BITS:
-            return HOSTFLAG_BITS[node.args[1].value]  # the flag is available in the OpenSSL builds that are supported
-    if isinstance(node, (ast.Attribute, ast.Call, ast.Name)):
-        raise AnalysisError(f"DEFAULT_HOSTFLAGS: term not modelled: {norm(node)}")
-    raise NotAnAtom
+class _World:
+    """what the modelled libraries were asked to do, in order"""
+
+    def __init__(self, identity_ok=1, hs_error=()):
+        self.log = []  # (kind, ...)
+        self.identity_ok = identity_ok  # what X509_VERIFY_PARAM_set1_host / set1_ip answer
+        self.hs_error = hs_error  # args of the SSL.Error do_handshake raises (R15.4)
+        self.connections = []
+        self.quic_configs = []
+        self.n = 0
+
+    def token(self, kind):
+        self.n += 1
+        return (kind, self.n)
 
 
-def _r15_2(ctx):
-    m = ctx.model
+class _Lib(_Stub):
+    """SSL._lib (the cffi binding) as far as verification is configured through it"""
+
+    def __init__(self, w):
+        self._w = w
+
+    @staticmethod
+    def _param(p, what):
+        if not (isinstance(p, tuple) and len(p) == 2 and p[0] == "X509_VERIFY_PARAM"):
+            raise AnalysisError(f"C15 world model: {what} is applied to {p!r}, not to verify parameters obtained with SSL_get0_param")
+        return p
+
+    def SSL_get0_param(self, ssl):
+        if not (isinstance(ssl, tuple) and ssl and ssl[0] == "SSL"):
+            raise AnalysisError(f"C15 world model: SSL_get0_param of {ssl!r}, which is not the _ssl handle of an SSL.Connection")
+        return ("X509_VERIFY_PARAM", ssl)
+
+    def X509_VERIFY_PARAM_set_hostflags(self, param, flags):
+        self._w.log.append(("hostflags", self._param(param, "set_hostflags"), flags))
+
+    def X509_VERIFY_PARAM_set1_host(self, param, name, namelen=0):
+        self._w.log.append(("set1_host", self._param(param, "set1_host"), name, namelen))
+        return self._w.identity_ok
+
+    def X509_VERIFY_PARAM_add1_host(self, param, name, namelen=0):
+        self._w.log.append(("add1_host", self._param(param, "add1_host"), name, namelen))
+        return self._w.identity_ok
+
+    def X509_VERIFY_PARAM_set1_ip(self, param, ip, iplen):
+        self._w.log.append(("set1_ip", self._param(param, "set1_ip"), ip, iplen))
+        return self._w.identity_ok
+
+    def X509_VERIFY_PARAM_set1_ip_asc(self, param, ipasc):
+        text = ipasc.decode("ascii", "replace") if isinstance(ipasc, (bytes, bytearray)) else ipasc
+        try:
+            packed = ipaddress.ip_address(text).packed
+        except ValueError:
+            return 0
+        self._w.log.append(("set1_ip", self._param(param, "set1_ip_asc"), packed, len(packed)))
+        return self._w.identity_ok
+
+    def SSL_get_verify_result(self, ssl):
+        return 10  # X509_V_ERR_CERT_HAS_EXPIRED
+
+    def X509_verify_cert_error_string(self, n):
+        return ("char*", "certificate has expired")
+
+    def __getattr__(self, k):
+        if k.startswith("__"):
+            raise AttributeError(k)
+        if k in HOSTFLAG_BITS:
+            return HOSTFLAG_BITS[k]
+        if k.startswith("X509_CHECK_FLAG_"):
+            raise AttributeError(k)  # a flag this OpenSSL build does not have
+        if _UNMODELLED_LIB.search(k):
+            raise AnalysisError(f"C15 world model: verification is configured through SSL._lib.{k}, which the model does not know")
+
+        def f(*a):
+            self._w.log.append(("lib", k, a))
+            return 1
+
+        return f
+
+
+class _Ffi(_Stub):
+    NULL = ("NULL", 0)
+
+    def string(self, cdata, maxlen=-1):
+        if isinstance(cdata, tuple) and len(cdata) == 2 and cdata[0] == "char*":
+            return cdata[1].encode()
+        return b"?"
+
+    def __getattr__(self, k):
+        if k.startswith("__"):
+            raise AttributeError(k)
+        return _Opaque(f"SSL._ffi.{k}")
+
+
+class _Context(_Stub):
+    """SSL.Context: records how verification and trust are configured; everything else is accepted and recorded"""
+
+    def __init__(self, w, method):
+        self._w = w
+        self._context = w.token("SSL_CTX")
+        self.method = method
+        self.calls = []
+
+    def set_verify(self, mode, callback=None):
+        self.calls.append(("set_verify", mode, callback))
+
+    def load_verify_locations(self, cafile, capath=None):
+        self.calls.append(("load_verify_locations", cafile, capath))
+
+    def __getattr__(self, k):
+        if k.startswith("__"):
+            raise AttributeError(k)
+
+        def f(*a, **kw):
+            self.calls.append((k, a, kw))
+            return None
+
+        return f
+
+
+class _Connection(_Stub):
+    """SSL.Connection: for the configuration rules (its context, per-connection verify override) and for the handshake rules (scripted failure)"""
+
+    def __init__(self, w, context=None, socket=None):
+        self._w = w
+        self._context = context
+        self._ssl = w.token("SSL")
+        self.calls = []
+        w.connections.append(self)
+
+    def get_context(self):
+        return self._context
+
+    def set_verify(self, mode, callback=None):
+        self.calls.append(("set_verify", mode, callback))
+
+    # -- handshake script (R15.4)
+    def bio_write(self, data):
+        data = bytes(data)
+        if not data:
+            raise Error("bio_write of an empty buffer")
+        self._w.log.append(("bio_write", data))
+        return len(data)
+
+    def do_handshake(self):
+        self._w.log.append(("do_handshake",))
+        raise Error(*self._w.hs_error)
+
+    def bio_read(self, n):
+        raise WantReadError()
+
+    def recv(self, n, flags=None):
+        raise WantReadError()
+
+    def get_shutdown(self):
+        return 0
+
+    def __getattr__(self, k):
+        if k.startswith("__"):
+            raise AttributeError(k)
+
+        def f(*a, **kw):
+            self.calls.append((k, a, kw))
+            return None
+
+        return f
+
+
+class _SSLModule(_Stub):
+    """OpenSSL.SSL"""
+
+    VERIFY_NONE, VERIFY_PEER, VERIFY_FAIL_IF_NO_PEER_CERT, VERIFY_CLIENT_ONCE = VERIFY_NONE, VERIFY_PEER, VERIFY_FAIL_IF_NO_PEER_CERT, VERIFY_CLIENT_ONCE
+    RECEIVED_SHUTDOWN, SENT_SHUTDOWN = 2, 1
+    Error, WantReadError, WantWriteError, ZeroReturnError, SysCallError = Error, WantReadError, WantWriteError, ZeroReturnError, SysCallError
+
+    def __init__(self, w):
+        self._w = w
+        self._lib = _Lib(w)
+        self._ffi = _Ffi()
+        self._consts = {}
+
+    def Context(self, method):
+        return _Context(self._w, method)
+
+    def Connection(self, context, socket=None):
+        if not isinstance(context, _Context):
+            raise AnalysisError(f"C15 world model: SSL.Connection created from {context!r}, which is not an SSL.Context")
+        return _Connection(self._w, context, socket)
+
+    def _openssl_assert(self, ok):
+        self._w.log.append(("assert", bool(ok)))
+        if not ok:
+            raise Error([("", "", "")])
+
+    def __getattr__(self, k):
+        if k.startswith("__"):
+            raise AttributeError(k)
+        if re.fullmatch(r"[A-Z][A-Z0-9]*_[A-Za-z0-9_]+", k):
+            return self._consts.setdefault(k, 0x1000 + len(self._consts))  # OP_*, *_METHOD, *_VERSION ...: distinct integers
+        return _Opaque(f"SSL.{k}")
+
+
+class _QuicConfiguration(_Stub):
+    def __init__(self, w, kwargs):
+        self.kwargs = kwargs
+        w.quic_configs.append(self)
+
+
+class _Options(_Stub):
+    """ctx.options: the values of the world, else the default the repository declares with add_option (evaluated on demand)"""
+
+    def __init__(self, world_values, default_of):
+        object.__setattr__(self, "_values", dict(world_values))
+        object.__setattr__(self, "_default_of", default_of)
+
+    def __getattr__(self, k):
+        if k.startswith("__"):
+            raise AttributeError(k)
+        if k not in self._values:
+            self._values[k] = self._default_of(k)
+        return self._values[k]
+
+
+def _is_dataclass(cls) -> bool:
+    return any(last_attr(d) == "dataclass" for d in cls.decorator_list)
+
+
+class _WInterp(Interp):
+    """pyint + (a) model objects are called directly (they may receive records) and the exceptions they raise keep their payload (``e.args``),
+    (b) the exception hierarchy of the OpenSSL model, (c) ``Enum["NAME"]`` / ``Enum(value)``, (d) dataclass construction and positional class patterns by the fields of
+    the dataclass-decorated classes only, ``isinstance(x, A | B)``, context managers of libraries outside the model, (e) a passive driver for generator methods (``run_direct``): a ``yield`` appends to the observation log and goes on, a
+    ``yield from <generator>`` runs the sub-generator's body in place and evaluates to its return value."""
+
+    _sink = None
+
+    # -- (a)
+    def native_call(self, f, args, kwargs, where):
+        if isinstance(f, _Stub) or isinstance(getattr(f, "__self__", None), _Stub) or getattr(f, "_c15_stub", False):
+            try:
+                return f(*args, **kwargs)
+            except AnalysisError:
+                raise
+            except TypeError as e:
+                if "argument" in str(e):  # the model's signature (= the library's) does not fit the call
+                    raise AnalysisError(f"C15 world model: call {where} does not fit the modelled library signature: {e}")
+                raise self._raised(e)
+            except Exception as e:
+                raise self._raised(e)
+        return Interp.native_call(self, f, args, kwargs, where)
+
+    @staticmethod
+    def _raised(e):
+        r = Raised(type(e).__name__, str(e))
+        r.exc = e
+        return r
+
+    def try_(self, st, env, mod, depth):
+        # pyint.try_ with the handler's name bound to the model's exception object (``e.args``, ``repr(e)``) when there is one
+        try:
+            try:
+                self.block(st.body, env, mod, depth)
+            except Raised as r:
+                for h in st.handlers:
+                    names = ["BaseException"] if h.type is None else [last_attr(e) for e in (h.type.elts if isinstance(h.type, ast.Tuple) else [h.type])]
+                    if any(self.exc_isa(r.name, n, mod) for n in names):
+                        if h.name:
+                            payload = getattr(r, "exc", None)
+                            env[h.name] = payload if payload is not None else f"<exc:{r.name}>"
+                        prev = env.get("$handling")
+                        env["$handling"] = r.name
+                        try:
+                            self.block(h.body, env, mod, depth)
+                        finally:
+                            if prev is None:
+                                env.pop("$handling", None)
+                            else:
+                                env["$handling"] = prev
+                        break
+                else:
+                    raise
+            else:
+                self.block(st.orelse, env, mod, depth)
+        finally:
+            if st.finalbody:
+                self.block(st.finalbody, env, mod, depth)
+
+    # -- (b)
+    def exc_isa(self, name, handler, mod):
+        c = _SSL_EXC.get(name)
+        if c is not None:
+            return handler in {k.__name__ for k in c.__mro__}
+        return Interp.exc_isa(self, name, handler, mod)
+
+    # -- (c) + (e)
+    def ev(self, e, env, mod, depth):
+        if isinstance(e, ast.Subscript) and isinstance(e.ctx, ast.Load) and isinstance(e.value, (ast.Name, ast.Attribute)):
+            base = Interp.ev(self, e.value, env, mod, depth)
+            if isinstance(base, ClassRef):
+                idx = self.ev(e.slice, env, mod, depth)
+                try:
+                    v = self.class_attr(base, idx, depth) if isinstance(idx, str) else None
+                except AnalysisError:
+                    v = None
+                if not (isinstance(v, tuple) and v and v[0] == "$enum"):
+                    raise Raised("KeyError", repr(idx))
+                return v
+        if isinstance(e, ast.YieldFrom) and not self._gen_targets and self._sink is not None:
+            v = self.ev(e.value, env, mod, depth)
+            if isinstance(v, Gen):
+                if v.k or v.done:
+                    raise AnalysisError("C15 harness: `yield from` of a partially consumed generator (not modelled)")
+                v.done = True
+                try:
+                    self.block(v.node.body, dict(v.env), v.f.mod, v.depth)
+                except _Return as r:
+                    return r.value
+                return None
+            for x in self.iterate(v, e.value):
+                self.do_yield(x)
+            return None
+        return Interp.ev(self, e, env, mod, depth)
+
+    def run_direct(self, g, sink):
+        if self._gen_targets or self._sink is not None:
+            raise AnalysisError("C15 harness: nested top-level run")
+        self._sink = sink
+        try:
+            try:
+                self.block(g.node.body, dict(g.env), g.f.mod, g.depth)
+            except _Return:
+                pass
+            g.done = True
+        finally:
+            self._sink = None
+
+    def do_yield(self, value):
+        if not self._gen_targets and self._sink is not None:
+            self._sink.append(("yield", value))
+            return None
+        return Interp.do_yield(self, value)
+
+    # -- (f) isinstance(x, A | B): pyint evaluates the union to ("$union", [classes]); its isinstance() built-in takes that tuple apart like a
+    #    tuple of classes, which leaves the marker string in the list - put it together again (core bug worked around here)
+    def isinstance_(self, v, classes):
+        flat = []
+        todo = list(classes)
+        while todo:
+            c = todo.pop(0)
+            if isinstance(c, str) and c == "$union" and todo and isinstance(todo[0], list):
+                todo = list(todo.pop(0)) + todo
+            elif isinstance(c, tuple) and len(c) == 2 and c[0] == "$union":
+                todo = list(c[1]) + todo
+            elif isinstance(c, types.UnionType):
+                todo = list(c.__args__) + todo
+            else:
+                flat.append(c)
+        return Interp.isinstance_(self, v, flat)
+
+    # -- (h) `case Cls(a, b)` for dataclasses: positions are the dataclass fields in order
+    def match(self, pat, subj, env, mod, depth):
+        if isinstance(pat, ast.MatchClass) and pat.patterns:
+            cls = self.ev(pat.cls, env, mod, depth)
+            if isinstance(cls, ClassRef):
+                names = self._dataclass_fields(cls)
+                if names is not None and len(pat.patterns) <= len(names):
+                    if not self.isinstance_(subj, [cls]):
+                        return False
+                    new = ast.MatchClass(cls=pat.cls, patterns=[], kwd_attrs=list(names[: len(pat.patterns)]) + list(pat.kwd_attrs), kwd_patterns=list(pat.patterns) + list(pat.kwd_patterns))
+                    ast.copy_location(new, pat)
+                    return Interp.match(self, new, subj, env, mod, depth)
+        return Interp.match(self, pat, subj, env, mod, depth)
+
+    def _dataclass_fields(self, c):
+        mro = self.model.mro(c.mod.rel, getattr(c.node, "_qual", c.node.name))
+        for _, cc in mro:
+            for st in cc.body:
+                if isinstance(st, ast.Assign) and any(isinstance(t, ast.Name) and t.id == "__match_args__" for t in st.targets):
+                    try:
+                        return list(ast.literal_eval(st.value))
+                    except Exception:
+                        return None
+        if not any(_is_dataclass(cc) for _, cc in mro):
+            return None
+        fields: dict = {}
+        for _, cc in reversed(mro):
+            if _is_dataclass(cc):
+                for st in cc.body:
+                    if isinstance(st, ast.AnnAssign) and isinstance(st.target, ast.Name) and "ClassVar" not in norm(st.annotation):
+                        fields[st.target.id] = True
+        return list(fields)
+
+    # -- (i) a context manager of a library outside the model has no effect on the modelled world
+    def stmt(self, st, env, mod, depth):
+        if isinstance(st, ast.Raise) and isinstance(st.exc, ast.Name) and isinstance(env.get(st.exc.id), BaseException):
+            raise self._raised(env[st.exc.id])
+        if isinstance(st, ast.With) and not any(isinstance(i.context_expr, ast.Call) and last_attr(i.context_expr.func) in ("suppress", "nullcontext") for i in st.items):
+            vals = [self.ev(i.context_expr, env, mod, depth) for i in st.items]
+            if all(isinstance(v, _Opaque) for v in vals):
+                for i, v in zip(st.items, vals):
+                    if i.optional_vars is not None:
+                        self.assign(i.optional_vars, _Opaque(f"{v._path}.__enter__()"), env, mod, depth)
+                return self.block(st.body, env, mod, depth)
+            raise AnalysisError(f"pyint: with-statement not modelled: {norm(st)[:80]}")
+        return Interp.stmt(self, st, env, mod, depth)
+
+    # -- (d) + (g)
+    def instantiate(self, c, args, kwargs, depth, where):
+        qual = getattr(c.node, "_qual", c.node.name)
+        mro = self.model.mro(c.mod.rel, qual)
+        ext = {last_attr(b) for _, cc in mro for b in cc.bases}
+        if ext & {"Enum", "IntEnum", "Flag", "IntFlag", "StrEnum"} and len(args) == 1 and not kwargs:
+            for _, cc in mro:
+                for st in cc.body:
+                    if isinstance(st, ast.Assign) and len(st.targets) == 1 and isinstance(st.targets[0], ast.Name):
+                        member = self.class_attr(c, st.targets[0].id, depth)
+                        if isinstance(member, tuple) and member and member[0] == "$enum" and member[3] is not None and member[3] == args[0] and type(member[3]) is type(args[0]):
+                            return member
+            raise Raised("ValueError", f"{args[0]!r} is not a valid {c.node.name}")
+        if self.model.method(c.mod.rel, qual, "__init__") is not None or not any(_is_dataclass(cc) for _, cc in mro) or ext & {"Exception", "BaseException", "ValueError", "RuntimeError", "TypeError", "KeyError"}:
+            return Interp.instantiate(self, c, args, kwargs, depth, where)
+        fields: dict = {}
+        for mm, cc in reversed(mro):
+            if not _is_dataclass(cc):
+                continue
+            for st in cc.body:
+                if isinstance(st, ast.AnnAssign) and isinstance(st.target, ast.Name) and "ClassVar" not in norm(st.annotation):
+                    fields[st.target.id] = (st.value, mm)  # a redefinition keeps the field's position
+        rec = Rec(c.node.name, _bases=tuple(cc.name for _, cc in mro[1:]) + tuple(ext), _impl=(c.mod.rel, qual))
+        if len(args) > len(fields):
+            raise Raised("TypeError", f"{c.node.name}: too many positional arguments")
+        for name, v in zip(fields, args):
+            object.__setattr__(rec, name, v)
+        for k, v in kwargs.items():
+            if k not in fields or k in rec.__dict__:
+                raise Raised("TypeError", f"{c.node.name}: unexpected / repeated argument {k}")
+            object.__setattr__(rec, k, v)
+        for name, (default, mm) in fields.items():
+            if name in rec.__dict__:
+                continue
+            if default is None:
+                raise Raised("TypeError", f"{c.node.name}: missing argument {name}")
+            if isinstance(default, ast.Call) and last_attr(default.func) == "field":
+                kw = {k.arg: k.value for k in default.keywords}
+                if "default_factory" in kw:
+                    v = self.apply(self.ev(kw["default_factory"], {}, mm, depth), [], {}, depth)
+                elif "default" in kw:
+                    v = self.ev(kw["default"], {}, mm, depth)
+                else:
+                    raise Raised("TypeError", f"{c.node.name}: missing argument {name}")
+            else:
+                v = self.ev(default, {}, mm, depth)
+            object.__setattr__(rec, name, v)
+        return rec
+
+
+class _CachedModel:
+    """Model proxy caching the class-hierarchy queries (the tree does not change during a run)"""
+
+    def __init__(self, m):
+        self._m, self._mro, self._meth, self._dotted = m, {}, {}, {}
+
+    def __getattr__(self, k):
+        return getattr(self._m, k)
+
+    def mro(self, rel, qual):
+        k = (rel, qual)
+        if k not in self._mro:
+            self._mro[k] = self._m.mro(rel, qual)
+        return self._mro[k]
+
+    def method(self, rel, cls_qual, name):
+        k = (rel, cls_qual, name)
+        if k not in self._meth:
+            r = None
+            for m, c in self.mro(rel, cls_qual):
+                r = next(((m, st) for st in c.body if isinstance(st, (ast.FunctionDef, ast.AsyncFunctionDef)) and st.name == name), None)
+                if r:
+                    break
+            self._meth[k] = r
+        return self._meth[k]
+
+    def module_by_dotted(self, dotted):
+        if dotted not in self._dotted:
+            self._dotted[dotted] = self._m.module_by_dotted(dotted)
+        return self._dotted[dotted]
+
+
+class _Env:
+    """what every world shares"""
+
+    def __init__(self, ctx):
+        self.ctx = ctx
+        self.model = _CachedModel(ctx.model)
+        self._option_defaults = None
+
+    def interp(self, w):
+        ssl_mod = _SSLModule(w)
+        os_mod = _OsModule()
+        quic_conf = types.SimpleNamespace(QuicConfiguration=_stub(lambda *a, **kw: self._quic_configuration(w, a, kw)))
+        dataclasses_mod = types.SimpleNamespace(field=_stub(lambda default=None, default_factory=None, **kw: default_factory() if default_factory is not None else default))
+        trusted = _Trusted({
+            "OpenSSL.SSL": ssl_mod, "OpenSSL": types.SimpleNamespace(SSL=ssl_mod, crypto=_Opaque("OpenSSL.crypto")),
+            "certifi": types.SimpleNamespace(where=_stub(lambda: CERTIFI)),
+            "os": os_mod, "logging": _Logging(), "ipaddress": ipaddress, "ssl": _ssl_consts, "enum": enum, "collections": collections, "struct": struct, "re": re,
+            "time": types.SimpleNamespace(time=_stub(lambda: 0.0), monotonic=_stub(lambda: 0.0), perf_counter=_stub(lambda: 0.0)),
+            "aioquic.quic.configuration": quic_conf, "dataclasses": dataclasses_mod,
+        })
+        it = _WInterp(self.model, max_steps=200000)
+        it.trusted = trusted  # (pyint copies the table it is given into a plain dict)
+        return it
+
+    @staticmethod
+    def _quic_configuration(w, a, kw):
+        if a:
+            raise AnalysisError("C15 world model: QuicConfiguration called with positional arguments (keyword-only in aioquic)")
+        return _QuicConfiguration(w, dict(kw))
+
+    def option_default(self, it, name):
+        """default of option ``name`` as declared by an ``add_option(name, typespec, default, ...)`` call in options.py / tlsconfig.py (any addon as
+        a last resort), evaluated by the interpreter"""
+        if self._option_defaults is None:
+            self._option_defaults = {}
+            self._scanned = set()
+            for rel in (OPTS, T):
+                self._scan_options(rel)
+        if name not in self._option_defaults:
+            for mod in self.model.all_modules("mitmproxy/addons"):
+                self._scan_options(mod.rel)
+        if name not in self._option_defaults:
+            raise AnalysisError(f"C15 world model: option `{name}` is read but no add_option declaration with that name was found")
+        mod, node = self._option_defaults[name]
+        try:
+            return it.ev(node, {}, mod, 0)
+        except Raised as r:
+            raise AnalysisError(f"C15 world model: default of option `{name}` raises {r.name}")
+
+    def _scan_options(self, rel):
+        if rel in self._scanned:
+            return
+        self._scanned.add(rel)
+        mod = self.model.module(rel)
+        for n in ast.walk(mod.tree):
+            if isinstance(n, ast.Call) and last_attr(n.func) == "add_option":
+                kw = {k.arg: k.value for k in n.keywords if k.arg}
+                name = n.args[0] if n.args else kw.get("name")
+                dflt = n.args[2] if len(n.args) > 2 else kw.get("default")
+                if isinstance(name, ast.Constant) and isinstance(name.value, str) and dflt is not None:
+                    self._option_defaults.setdefault(name.value, (mod, dflt))
+
+
+SERVER_HOST = "origin.example"  # the server's address differs from every SNI of the worlds: an identity taken from the address is visible
+
+
+def _connections(sni, client_sni=None):
+    client = Rec("Client", _impl=(CONN, "Client"), _bases=("Connection",), _name="client", peername=("198.51.100.1", 50000), sockname=("198.51.100.2", 8080), sni=client_sni,
+                 alpn=None, alpn_offers=[b"h2", b"http/1.1"], cipher_list=[], error=None, tls=False, transport_protocol="tcp", certificate_list=[], state=None,
+                 timestamp_start=0.0, timestamp_end=None, timestamp_tls_setup=None, cipher=None, tls_version=None, mitmcert=None)
+    server = Rec("Server", _impl=(CONN, "Server"), _bases=("Connection",), _name="server", address=(SERVER_HOST, 443), peername=("203.0.113.9", 443), sockname=None, sni=sni,
+                 alpn=None, alpn_offers=[], cipher_list=[], error=None, tls=False, transport_protocol="tcp", certificate_list=[], state=None, via=None,
+                 timestamp_start=None, timestamp_end=None, timestamp_tcp_setup=None, timestamp_tls_setup=None, cipher=None, tls_version=None)
+    return client, server
+
+
+class _ConfigRun:
+    """one interpretation of TlsConfig.tls_start_server / quic_start_server in a concrete world"""
+
+    def __init__(self, env, *, insecure, sni, client_sni=None, ca_file=None, ca_dir=None, identity_ok=1, quic=False):
+        self.desc = (f"ssl_insecure={insecure}, sni={sni!r}, trusted_ca={ca_file!r}, trusted_confdir={ca_dir!r}" + (f", client sni={client_sni!r}" if client_sni is not None else "")
+                     + ("" if identity_ok == 1 else f", OpenSSL refuses the identity ({identity_ok})"))
+        self.w = w = _World(identity_ok=identity_ok)
+        self.it = it = env.interp(w)
+        opts = _Options({"ssl_insecure": insecure, "ssl_verify_upstream_trusted_ca": ca_file, "ssl_verify_upstream_trusted_confdir": ca_dir, "client_certs": None},
+                        lambda name: env.option_default(it, name))
+        it.overrides[(T, "ctx")] = types.SimpleNamespace(options=opts, master=_Opaque("ctx.master"), log=_NullLogger())
+        self.client, self.server = _connections(sni, client_sni)
+        context = Rec("Context", _name="context", client=self.client, server=self.server, layers=[], options=opts)
+        if quic:
+            self.data = Rec("QuicTlsData", _bases=("TlsData",), _name="tls_start", conn=self.server, context=context, ssl_conn=None, is_dtls=False, settings=None)
+        else:
+            self.data = Rec("TlsData", _name="tls_start", conn=self.server, context=context, ssl_conn=None, is_dtls=False)
+        addon = Rec("TlsConfig", _impl=(T, "TlsConfig"), _name="tlsconfig")
+        self.raised = None
+        try:
+            it.method(addon, "quic_start_server" if quic else "tls_start_server", self.data)
+        except Raised as r:
+            self.raised = r
+
+    # -- what the proxy core gets
+    def connection(self):
+        conn = self.data.__dict__.get("ssl_conn")
+        if not isinstance(conn, _Connection) or not isinstance(conn._context, _Context):
+            raise AnalysisError(f"tls_start_server [{self.desc}]: tls_start.ssl_conn is {conn!r}, not an SSL.Connection created by the function (shape not modelled)")
+        return conn
+
+    def verify_in_force(self):
+        """(mode, callback) of the connection: the last set_verify on the connection, else the last one on its context, else OpenSSL's default"""
+        conn = self.connection()
+        for calls in (conn.calls, conn._context.calls):
+            sv = [c for c in calls if c[0] == "set_verify"]
+            if sv:
+                return sv[-1][1], sv[-1][2]
+        return VERIFY_NONE, None
+
+    def param_state(self):
+        """host flags / host names / IP in force on the verify parameters of the connection"""
+        conn = self.connection()
+        me = ("X509_VERIFY_PARAM", conn._ssl)
+        st = {"flags": 0, "hosts": [], "ip": None, "foreign": []}
+        for e in self.w.log:
+            if e[0] in ("hostflags", "set1_host", "add1_host", "set1_ip") and e[1] != me:
+                st["foreign"].append(e)
+            elif e[0] == "hostflags":
+                st["flags"] = e[2]
+            elif e[0] == "set1_host":
+                st["hosts"] = [(e[2], e[3])]
+            elif e[0] == "add1_host":
+                st["hosts"].append((e[2], e[3]))
+            elif e[0] == "set1_ip":
+                st["ip"] = (e[2], e[3])
+        _known([st["flags"], st["hosts"], st["ip"]], f"tls_start_server [{self.desc}]: identity bound to the verify parameters")
+        for name, _ in st["hosts"]:
+            if not isinstance(name, (bytes, bytearray, str)):
+                raise AnalysisError(f"tls_start_server [{self.desc}]: host name handed to OpenSSL is {name!r} (not modelled)")
+        st["hosts"] = [(n.encode("ascii", "replace") if isinstance(n, str) else bytes(n), k) for n, k in st["hosts"]]
+        if st["ip"] is not None:
+            if not isinstance(st["ip"][0], (bytes, bytearray)):
+                raise AnalysisError(f"tls_start_server [{self.desc}]: address handed to OpenSSL is {st['ip'][0]!r} (not modelled)")
+            st["ip"] = (bytes(st["ip"][0]), st["ip"][1])
+        return st
+
+    def trust_calls(self):
+        out = [c for c in self.connection()._context.calls if c[0] in ("load_verify_locations", "set_default_verify_paths", "get_cert_store", "load_verify_directory", "load_verify_file")]
+        _known(out, f"tls_start_server [{self.desc}]: trust store arguments")
+        return out
+
+
+def _known(values, what):
+    """observations the rules compare must be values of the model, not of a library outside it"""
+    todo = list(values) if isinstance(values, (list, tuple)) else [values]
+    while todo:
+        v = todo.pop()
+        if isinstance(v, _Opaque):
+            raise AnalysisError(f"{what}: computed by a library outside the model ({v!r})")
+        if isinstance(v, (list, tuple)):
+            todo.extend(v)
+        elif isinstance(v, dict):
+            todo.extend(v.values())
+
+
+def _accepting_callback(run, cb):
+    """does the verify callback accept a certificate OpenSSL rejected (preverify_ok = 0)?"""
+    if cb is None:
+        return False
+    if not isinstance(cb, Func):
+        raise AnalysisError(f"tls_start_server: verify callback {cb!r} is not a repository function (not modelled)")
+    try:
+        res = run.it.apply(cb, [run.connection(), _Opaque("x509"), 10, 0, 0], {}, 0)
+    except Raised:
+        return False  # pyOpenSSL treats a raising callback as a failed verification
+    return run.it.truthy(res)
+
+
+def _int(v, what):
+    if isinstance(v, bool) or not isinstance(v, int):
+        raise AnalysisError(f"{what} is {v!r}, not an integer the OpenSSL model understands")
+    return v
+
+
+def _r15_1(ctx, env):
     tss = ctx.func(T, "TlsConfig.tls_start_server")
     where = (T, "TlsConfig.tls_start_server", tss)
-    flags = ceval(m.const(T, "DEFAULT_HOSTFLAGS"), {}, _hostflags_atom, "DEFAULT_HOSTFLAGS")
+    bad = {False: [], True: []}
+    cb_bad = []
+    for insecure in (False, True):
+        for sni in ("www.example.com", "192.0.2.7"):
+            run = _ConfigRun(env, insecure=insecure, sni=sni)
+            ctx.cells += 1
+            ctx.require(run.raised is None, f"tls_start_server raises {run.raised} in the world [{run.desc}] (world not understood)")
+            mode, cb = run.verify_in_force()
+            mode = _int(mode, "the verify mode handed to set_verify")
+            if insecure:
+                if mode != VERIFY_NONE and not _accepting_callback(run, cb):
+                    bad[True].append(f"[{run.desc}] mode {mode:#x}")
+            else:
+                if not mode & VERIFY_PEER:
+                    bad[False].append(f"[{run.desc}] mode {mode:#x}")
+                elif _accepting_callback(run, cb):
+                    cb_bad.append(f"[{run.desc}] callback {getattr(cb.node, 'name', 'lambda')}")
+    ctx.check(not bad[False], "R15.1", where, "verify mode of the server connection with ssl_insecure=False",
+              f"the connection handed to the proxy core does not verify its peer although ssl_insecure is off (VERIFY_PEER not in force): {'; '.join(bad[False])}",
+              desc="ssl_insecure=False -> VERIFY_PEER in force on tls_start.ssl_conn")
+    ctx.check(not bad[True], "R15.1", where, "verify mode of the server connection with ssl_insecure=True",
+              f"ssl_insecure does not disable verification (VERIFY_NONE not in force): {'; '.join(bad[True])}", desc="ssl_insecure=True -> VERIFY_NONE in force on tls_start.ssl_conn")
+    ctx.check(not cb_bad, "R15.1", where, "verify callback of the server connection",
+              f"a verify callback accepts certificates OpenSSL rejected, overriding the verdict: {'; '.join(cb_bad)}", desc="no verify callback overrides OpenSSL's verdict")
+    # QUIC
+    qss = ctx.func(T, "TlsConfig.quic_start_server")
+    conv = _quic_converter(ctx)
+    for insecure, want in ((False, _ssl_consts.CERT_REQUIRED), (True, _ssl_consts.CERT_NONE)):
+        kw = _quic_world(ctx, env, conv, insecure, "/world/ca.pem", "/world/ca-dir")
+        got = kw.get("verify_mode")
+        ctx.check(got is want, "R15.1", (T, "TlsConfig.quic_start_server", qss), f"QUIC verify_mode with ssl_insecure={insecure}",
+                  f"QuicConfiguration receives verify_mode={got!r}, expected {want!r}", desc=f"QUIC ssl_insecure={insecure} -> QuicConfiguration(verify_mode={want.name})")
+    ctx.expect_instances("R15.1", 5)
+
+
+def _quic_converter(ctx):
+    """the function of the QUIC layer module that turns the addon's settings into aioquic's QuicConfiguration: found by what it does"""
+    mod = ctx.model.module(QS)
+    found = [(q, d) for q, d in mod.defs().items() if isinstance(d, ast.FunctionDef) and "." not in q and any(last_attr(c.func) == "QuicConfiguration" for c in calls_in(d))]
+    ctx.require(len(found) == 1, f"{QS}: {len(found)} module-level functions build a QuicConfiguration (exactly one modelled)")
+    ctx.func(QS, found[0][0])
+    return found[0]
+
+
+def _quic_world(ctx, env, conv, insecure, ca_file, ca_dir):
+    """keyword arguments QuicConfiguration receives for the settings quic_start_server produces"""
+    run = _ConfigRun(env, insecure=insecure, sni="www.example.com", ca_file=ca_file, ca_dir=ca_dir, quic=True)
+    ctx.cells += 1
+    ctx.require(run.raised is None, f"quic_start_server raises {run.raised} in the world [{run.desc}] (world not understood)")
+    settings = run.data.__dict__.get("settings")
+    ctx.require(isinstance(settings, Rec), f"quic_start_server leaves tls_start.settings = {settings!r} (shape not modelled)")
+    conv_name, conv = conv
+    a = conv.args
+    params = [p.arg for p in a.posonlyargs + a.args + a.kwonlyargs]
+    ctx.require(params, f"{conv_name} takes no parameters")
+    values = {"is_client": True, "server_name": "www.example.com"}
+    n_required = len(a.posonlyargs + a.args) - len(a.defaults)
+    required = set(params[:n_required]) | {p.arg for p, d in zip(a.kwonlyargs, a.kw_defaults) if d is None}
+    kwargs = {params[0]: settings}
+    for p in params[1:]:
+        if p in values:
+            kwargs[p] = values[p]
+        elif p in required:
+            raise AnalysisError(f"{conv_name} has a new required parameter `{p}` (not modelled)")
+    try:
+        if a.posonlyargs:
+            run.it.call(QS, conv_name, settings, **{k: v for k, v in kwargs.items() if k != params[0]})
+        else:
+            run.it.call(QS, conv_name, **kwargs)
+    except Raised as r:
+        raise AnalysisError(f"{conv_name} raises {r} on the settings of quic_start_server")
+    ctx.require(len(run.w.quic_configs) == 1, f"{conv_name} builds {len(run.w.quic_configs)} QuicConfiguration objects (exactly one modelled)")
+    kw = dict(run.w.quic_configs[0].kwargs)
+    _known([kw.get(k) for k in ("verify_mode", "cafile", "capath", "server_name")], "QuicConfiguration(verify_mode=, cafile=, capath=, server_name=)")
+    kw["$server_name_given"] = "server_name" in kwargs
+    return kw
+
+
+def _r15_2(ctx, env):
+    tss = ctx.func(T, "TlsConfig.tls_start_server")
+    where = (T, "TlsConfig.tls_start_server", tss)
     need = HOSTFLAG_BITS["X509_CHECK_FLAG_NO_PARTIAL_WILDCARDS"] | HOSTFLAG_BITS["X509_CHECK_FLAG_NEVER_CHECK_SUBJECT"]
     weak = HOSTFLAG_BITS["X509_CHECK_FLAG_ALWAYS_CHECK_SUBJECT"] | HOSTFLAG_BITS["X509_CHECK_FLAG_MULTI_LABEL_WILDCARDS"]
-    ctx.check(isinstance(flags, int) and flags & need == need and not flags & weak, "R15.2", (T, "<module>", m.const(T, "DEFAULT_HOSTFLAGS")), "DEFAULT_HOSTFLAGS",
-              f"host flags {flags:#x} lack NO_PARTIAL_WILDCARDS|NEVER_CHECK_SUBJECT or contain a weakening flag: partial wildcards / Common Name fallback would be accepted",
-              desc=f"DEFAULT_HOSTFLAGS = {flags:#x} (NO_PARTIAL_WILDCARDS | NEVER_CHECK_SUBJECT)")
-
-    HF, H, IP, ASSERT = "SSL._lib.X509_VERIFY_PARAM_set_hostflags", "SSL._lib.X509_VERIFY_PARAM_set1_host", "SSL._lib.X509_VERIFY_PARAM_set1_ip", "SSL._openssl_assert"
-    SNI = "server.sni"
-
-    def keep(ev):
-        if ev[0] == "callx":
-            return ev[1] in (HF, H, IP, ASSERT)
-        if ev[0] == "cond":
-            return ev[1] == SNI or INSECURE in ev[1] or "verify" in ev[1]
-        return ev[0] in ("except", "assign") and (ev[0] == "except" or ev[1] in ("ok", "param"))
-
-    spec = VerifySpec(keep=keep, call_nodes=True)
-    res, eng = traces_of(tss, spec)
-    ctx.paths += len(res)
-    # dataflow of param: SSL_get0_param of this connection
-    pdefs = local_defs(tss, "param")
-    ctx.require(len(pdefs) == 1 and isinstance(pdefs[0], ast.Call) and call_name(pdefs[0]) == "SSL._lib.SSL_get0_param" and norm(pdefs[0].args[0]) == "tls_start.ssl_conn._ssl",
-                "tls_start_server: `param = SSL._lib.SSL_get0_param(tls_start.ssl_conn._ssl)` changed shape")
-
-    def from_sni(arg):
-        if mentions(arg, SNI):
-            return True
-        if isinstance(arg, ast.Name):
-            d = local_defs(tss, arg.id)
-            return bool(d) and all(mentions(x, SNI) for x in d)
-        return False
-
-    bad = {"flags": 0, "branch": 0, "assert": 0, "args": 0}
-    n_host = n_ip = n_nosni_secure = 0
-    bad_raise = 0
-    for t, how, st in res:
-        sni_conds = [e for e in t if e[0] == "cond" and e[1] == SNI]
-        if not sni_conds:
-            continue  # early return (a user addon provided the connection)
-        if sni_conds[-1][2]:
-            if how.startswith("raise"):
-                continue
-            calls = [e for e in t if e[0] == "callx"]
-            names = [e[1] for e in calls]
-            name_branch = any(e == ("except", "ValueError") for e in t)
-            n_host += name_branch
-            n_ip += not name_branch
-            if names.count(HF) != 1 or norm(calls[names.index(HF)][2]) != f"{HF}(param, DEFAULT_HOSTFLAGS)":
-                bad["flags"] += 1
-                continue
-            want, other = (H, IP) if name_branch else (IP, H)
-            if names.count(want) != 1 or other in names or names.index(HF) > names.index(want):
-                bad["branch"] += 1
-                continue
-            i = names.index(want)
-            c = calls[i][2]
-            if not (c.args and isinstance(c.args[0], ast.Name) and c.args[0].id == "param" and len(c.args) == 3 and from_sni(c.args[1])):
-                bad["args"] += 1
-            # ok = <call>; ...; _openssl_assert(ok == 1) with no rebinding in between
-            par = getattr(c, "_parent", None)
-            okname = par.targets[0].id if isinstance(par, ast.Assign) and len(par.targets) == 1 and isinstance(par.targets[0], ast.Name) else None
-            j = index_of(t, lambda e: e[0] == "callx" and e[2] is c)
-            k = index_of(t, lambda e: e[0] == "callx" and e[1] == ASSERT, j + 1)
-            good = okname is not None and k > j and norm(t[k][2]) == f"{ASSERT}({okname} == 1)" and sum(1 for e in t[j:k] if e == ("assign", okname)) <= 1
-            if not good:
-                bad["assert"] += 1
+    worlds = [("DNS name", "www.example.com"), ("IPv4 literal", "192.0.2.7"), ("IPv6 literal", "2001:db8::1")]
+    flag_bad = []
+    seen_flags = set()
+    for kind, sni in worlds:
+        run = _ConfigRun(env, insecure=False, sni=sni)
+        ctx.cells += 1
+        ctx.require(run.raised is None, f"tls_start_server raises {run.raised} in the world [{run.desc}] (world not understood)")
+        st = run.param_state()
+        ctx.require(not st["foreign"], f"tls_start_server [{run.desc}] configures verify parameters of another connection: {st['foreign'][:2]} (not modelled)")
+        flags = _int(st["flags"], "the host flags handed to X509_VERIFY_PARAM_set_hostflags")
+        if kind == "DNS name":  # (host flags govern the matching of DNS names only)
+            seen_flags.add(flags)
+            if flags & need != need or flags & weak:
+                flag_bad.append(f"[{run.desc}] {flags:#x}")
+            name = sni.encode("idna")
+            ok = st["ip"] is None and len(st["hosts"]) == 1 and st["hosts"][0][0] == name and st["hosts"][0][1] in (len(name), 0)
+            why = f"host names {st['hosts']}, ip {st['ip']}; expected host {name!r} only"
+            bad = "any valid certificate would be accepted for this server" if not st["hosts"] and st["ip"] is None else "the certificate is checked against another identity than the SNI"
         else:
-            # no SNI
-            for insecure in (False, True):
-                if feasible(t, lambda n: mentions(n, INSECURE), insecure_atom(insecure), what="tls_start_server"):
-                    if not insecure:
-                        n_nosni_secure += 1
-                        if not how.startswith("raise"):
-                            bad_raise += 1
-    ctx.require(n_host > 0 and n_ip > 0, f"tls_start_server: host ({n_host}) / ip ({n_ip}) branches not both found")
-    ctx.check(bad["flags"] == 0, "R15.2", where, "X509_VERIFY_PARAM_set_hostflags(param, DEFAULT_HOSTFLAGS) with SNI",
-              f"{bad['flags']} path(s) with SNI do not set the strict host flags exactly once", desc="hostflags set on every SNI path")
-    ctx.check(bad["branch"] == 0, "R15.2", where, "set1_host for names / set1_ip for IP literals, after the host flags",
-              f"{bad['branch']} path(s) with SNI bind no (or the wrong kind of) identity to the verify parameters: any valid certificate would be accepted for this server",
-              desc=f"set1_host on {n_host} name path(s), set1_ip on {n_ip} ip path(s)")
-    ctx.check(bad["args"] == 0, "R15.2", where, "set1_host/set1_ip(param, <from server.sni>, len)",
-              f"{bad['args']} path(s) bind an identity that is not derived from server.sni or not to this connection's param", desc="identity derived from server.sni, applied to this connection's param")
-    ctx.check(bad["assert"] == 0, "R15.2", where, "_openssl_assert(ok == 1) after set1_host/set1_ip",
-              f"{bad['assert']} path(s) ignore a failure to install the expected identity", desc="result of set1_host/set1_ip asserted")
-    ctx.require(n_nosni_secure > 0, "tls_start_server: no path without SNI found for ssl_insecure=False")
-    ctx.check(bad_raise == 0, "R15.2", where, "no SNI and verification on -> raise",
-              f"{bad_raise} path(s) continue without SNI although verification is on: the certificate would be checked against no name", desc="without SNI and ssl_insecure off the function raises")
-    ctx.expect_instances("R15.2", 6)
+            packed = ipaddress.ip_address(sni).packed
+            ok = not st["hosts"] and st["ip"] is not None and st["ip"][0] == packed and st["ip"][1] == len(packed)
+            why = f"host names {st['hosts']}, ip {st['ip']}; expected ip {packed!r} only"
+            bad = "any valid certificate would be accepted for this server" if not st["hosts"] and st["ip"] is None else "the certificate is checked against another identity than the address in the SNI"
+        ctx.check(ok, "R15.2", where, f"identity bound to the verify parameters of the connection, SNI is a {kind}",
+                  f"[{run.desc}] {why}: {bad}", desc=f"{kind}: {'set1_host(idna name)' if kind == 'DNS name' else 'set1_ip(packed address)'} on this connection's param")
+        # OpenSSL refuses the identity -> the function must not complete
+        ref = _ConfigRun(env, insecure=False, sni=sni, identity_ok=0)
+        ctx.cells += 1
+        ctx.check(ref.raised is not None, "R15.2", where, f"failure to install the identity is not ignored, SNI is a {kind}",
+                  f"[{ref.desc}] tls_start_server completes although OpenSSL did not accept the expected identity: the certificate would be checked against no name",
+                  desc=f"{kind}: result of installing the identity is asserted")
+    ctx.check(not flag_bad, "R15.2", where, "host flags in force on the verify parameters",
+              f"host flags lack NO_PARTIAL_WILDCARDS|NEVER_CHECK_SUBJECT or contain a weakening flag (partial wildcards / Common Name fallback would be accepted): {'; '.join(flag_bad)}",
+              desc=f"host flags in force = {', '.join(f'{f:#x}' for f in sorted(seen_flags))} (NO_PARTIAL_WILDCARDS | NEVER_CHECK_SUBJECT)")
+    # the server connection has no SNI yet (the function derives it from the client's SNI / the server address): whatever it settles on is verified
+    derived_bad = []
+    for client_sni in ("asked-for.example", None):
+        run = _ConfigRun(env, insecure=False, sni=None, client_sni=client_sni)
+        ctx.cells += 1
+        ctx.require(run.raised is None, f"tls_start_server raises {run.raised} in the world [{run.desc}] (world not understood)")
+        final = run.server.__dict__.get("sni")
+        ctx.require(isinstance(final, str) and final, f"tls_start_server [{run.desc}] completes with server.sni = {final!r} (shape not modelled)")
+        st = run.param_state()
+        mode, cb = run.verify_in_force()
+        name = final.encode("idna")
+        if not (_int(mode, "the verify mode handed to set_verify") & VERIFY_PEER) or _accepting_callback(run, cb) or st["ip"] is not None or [h for h, _ in st["hosts"]] != [name]:
+            derived_bad.append(f"[{run.desc}] server.sni becomes {final!r}, verify mode {mode:#x}, host names {st['hosts']}, ip {st['ip']}")
+    ctx.check(not derived_bad, "R15.2", where, "identity bound to the verify parameters when the SNI is derived by the function",
+              f"the connection is not verified against the SNI the function settles on: {'; '.join(derived_bad)}", desc="SNI derived from the client's SNI / the server address: that name is verified")
+    # QUIC: the name aioquic verifies the certificate against is the one the layer hands to the settings conversion
+    kw = _quic_world(ctx, env, _quic_converter(ctx), False, None, None)
+    if kw["$server_name_given"]:
+        ctx.check(kw.get("server_name") == "www.example.com", "R15.2", (QS, _quic_converter(ctx)[0], _quic_converter(ctx)[1]), "QUIC server_name reaches QuicConfiguration",
+                  f"QuicConfiguration receives server_name={kw.get('server_name')!r} instead of the name it was asked to verify ('www.example.com')", desc="QUIC: server_name reaches QuicConfiguration unchanged")
+    nosni = _ConfigRun(env, insecure=False, sni="")
+    ctx.cells += 1
+    ctx.check(nosni.raised is not None, "R15.2", where, "no SNI and verification on -> raise",
+              f"[{nosni.desc}] tls_start_server continues without SNI although verification is on: the certificate would be checked against no name", desc="without SNI and ssl_insecure off the function raises")
+    ctx.expect_instances("R15.2", 9)
 
 
-def _r15_3(ctx):
-    cps = ctx.func(NT, "create_proxy_server_context")
-    where = (NT, "create_proxy_server_context", cps)
-    LOAD = ".load_verify_locations"
+def _r15_3(ctx, env):
+    if ctx.model.has(NT, "create_proxy_server_context"):
+        where = (NT, "create_proxy_server_context", ctx.func(NT, "create_proxy_server_context"))
+    else:  # (the function is found by interpretation, not by its name; the name only locates the finding)
+        where = (T, "TlsConfig.tls_start_server", ctx.func(T, "TlsConfig.tls_start_server"))
+    for ca_dir in (None, "/world/ca-dir"):
+        for ca_file in (None, "/world/ca.pem"):
+            run = _ConfigRun(env, insecure=False, sni="www.example.com", ca_file=ca_file, ca_dir=ca_dir)
+            ctx.cells += 1
+            ctx.require(run.raised is None, f"tls_start_server raises {run.raised} in the world [{run.desc}] (world not understood)")
+            got = run.trust_calls()
+            want = [("load_verify_locations", ca_file, ca_dir)] if (ca_file is not None or ca_dir is not None) else [("load_verify_locations", CERTIFI, None)]
+            shown = [f"{c[0]}({', '.join(map(repr, c[1:]))})" if c[0] == "load_verify_locations" else f"{c[0]}(...)" for c in got]
+            ctx.check(bool(got) and all(c == want[0] for c in got), "R15.3", where, f"trust store with trusted_confdir={ca_dir!r}, trusted_ca={ca_file!r}",
+                      f"the context of the server connection loads {shown or 'no trust store'}, expected exactly load_verify_locations({want[0][1]!r}, {want[0][2]!r}) "
+                      "(the configured CA file / directory; certifi's bundle only when nothing is configured)",
+                      desc=f"trusted_confdir={ca_dir!r}, trusted_ca={ca_file!r}: load_verify_locations({want[0][1]!r}, {want[0][2]!r}) only")
+    qss = ctx.func(T, "TlsConfig.quic_start_server")
+    conv = _quic_converter(ctx)
+    kw = _quic_world(ctx, env, conv, False, "/world/ca.pem", "/world/ca-dir")
+    ctx.check(kw.get("cafile") == "/world/ca.pem" and kw.get("capath") == "/world/ca-dir", "R15.3", (T, "TlsConfig.quic_start_server", qss), "QUIC cafile/capath from the ssl_verify_upstream_trusted_* options",
+              f"QuicConfiguration receives cafile={kw.get('cafile')!r}, capath={kw.get('capath')!r} for trusted_ca='/world/ca.pem', trusted_confdir='/world/ca-dir'", desc="QUIC: trust store options reach QuicConfiguration(cafile=, capath=)")
+    ctx.expect_instances("R15.3", 5)
 
-    def keep(ev):
-        if ev[0] == "callx":
-            return ev[1].endswith(LOAD)
-        if ev[0] == "cond":
-            return "ca_path" in ev[1] or "ca_pemfile" in ev[1]
-        return ev[0] in ("assignx", "ret") and (ev[0] == "ret" or ev[1] in ("ca_path", "ca_pemfile"))
 
-    res, eng = traces_of(cps, FlowSpec(keep=keep, call_nodes=True, assign_nodes=True, ret_nodes=True))
-    rel = lambda n: mentions(n, "ca_path", "ca_pemfile")  # noqa: E731
-    stale = lambda e: e[0] == "assignx"  # noqa: E731
+# ---------------------------------------------------------------------------------------------------
+# R15.4, first half: the server TLS layer with a failing handshake
 
-    def atom(node, env):
-        if isinstance(node, (ast.Attribute, ast.Call)) or (isinstance(node, ast.Name) and node.id not in env):
-            raise AnalysisError(f"create_proxy_server_context: trust-store condition not modelled: {norm(node)}")
-        raise NotAnAtom
+HS_ERRORS = [
+    ("certificate verify failed (OpenSSL 3)", ([("SSL routines", "", "certificate verify failed")],)),
+    ("certificate verify failed (OpenSSL 1.1)", ([("SSL routines", "tls_process_server_certificate", "certificate verify failed")],)),
+    ("alert unknown ca", ([("SSL routines", "ssl3_read_bytes", "tlsv1 alert unknown ca")],)),
+    ("alert bad certificate", ([("SSL routines", "", "sslv3 alert bad certificate")],)),
+    ("wrong version number", ([("SSL routines", "", "wrong version number")],)),
+    ("alert protocol version", ([("SSL routines", "", "tlsv1 alert protocol version")],)),
+    ("unknown error queue", ([("x509 certificate routines", "", "some other failure"), ("SSL routines", "", "something went wrong")],)),
+    ("error without arguments", ()),
+]
 
-    for ca_path in (None, "/ca/dir"):
-        for ca_pemfile in (None, "/ca/file.pem"):
-            env = {"ca_path": ca_path, "ca_pemfile": ca_pemfile}
-            n = bad = 0
-            for t, how, st in res:
-                if how != "return" or not feasible(t, rel, atom, env, "create_proxy_server_context", until=stale):
-                    continue
+
+def _failed_handshake(env, hs_error, pending, data):
+    """-> (observation log, layer, server connection, pending command, crash)"""
+    m = env.model
+    w = _World(hs_error=hs_error)
+    it = env.interp(w)
+    client, server = _connections("www.example.com", "www.example.com")
+    context = Rec("Context", _name="context", client=client, server=server, layers=[], options=_Options({"proxy_debug": False}, lambda name: env.option_default(it, name)))
+    cls = m.cls(PT, "ServerTLSLayer")
+    try:
+        layer = it.instantiate(ClassRef(m.module(PT), cls), [context], {}, 0, "C15 harness")
+    except Raised as r:
+        raise AnalysisError(f"ServerTLSLayer(context) raises {r} in the interpretation")
+    if not isinstance(layer, Rec) or layer.__dict__.get("conn") is not server or layer.__dict__.get("tunnel_connection") is not server:
+        raise AnalysisError("ServerTLSLayer(context) does not tunnel context.server (constructor shape not modelled)")
+    log = w.log
+
+    def handle_event(event):
+        log.append(("child", event))
+        return []
+
+    def put(name, value):
+        # the harness puts the layer into the state "handshake in progress" through the attributes the layer keeps that state in: they must exist
+        try:
+            it.getattr(layer, name, None, 0)
+        except AnalysisError:
+            raise AnalysisError(f"ServerTLSLayer keeps no attribute `{name}` any more: the C15 harness cannot set up a handshake in progress (shape not modelled)")
+        object.__setattr__(layer, name, value)
+
+    put("child_layer", Rec("ChildLayer", _bases=("Layer",), _name="child", handle_event=_stub(handle_event)))
+    put("tls", _Connection(w))
+    state_cls = ClassRef(m.module(TU), m.cls(TU, "TunnelState"))
+    put("tunnel_state", it.class_attr(state_cls, "ESTABLISHING", 0))
+    cmd = None
+    if pending:
+        cmd = it.instantiate(ClassRef(m.module(CMDS), m.cls(CMDS, "OpenConnection")), [server], {}, 0, "C15 harness")
+        object.__setattr__(cmd, "_name", "pending OpenConnection")
+        put("command_to_reply_to", cmd)
+    event = it.instantiate(ClassRef(m.module(EVTS), m.cls(EVTS, "DataReceived")), [server, data], {}, 0, "C15 harness")
+    crash = None
+    try:
+        gen = it.method(layer, "_handle_event", event)
+        if not isinstance(gen, Gen):
+            raise AnalysisError("TunnelLayer._handle_event is not a generator function (shape not modelled)")
+        it.run_direct(gen, log)
+    except Raised as r:
+        if r.name in ("AttributeError", "TypeError", "NameError", "NotImplementedError"):
+            # far more likely a gap between the model and the code than a behaviour of the layer: refuse instead of reporting a violation
+            raise AnalysisError(f"ServerTLSLayer with a failing handshake raises {r.name}: {r.msg[:160]} in the interpretation (model / code mismatch, not modelled)")
+        crash = f"{r.name}: {r.msg}"[:160]
+    return log, layer, server, cmd, crash
+
+
+def _is(rec, cls_name):
+    return isinstance(rec, Rec) and rec.isa(cls_name)
+
+
+def _where(ctx, rel, qual):
+    if ctx.model.has(rel, qual):
+        return rel, qual, ctx.func(rel, qual)
+    return TU, "TunnelLayer._handle_event", ctx.func(TU, "TunnelLayer._handle_event")
+
+
+def _r15_4_layers(ctx, env):
+    ctx.func(TU, "TunnelLayer._handle_event")
+    ctx.model.cls(PT, "ServerTLSLayer")
+    ctx.require([c.name for _, c in ctx.model.mro(PT, "ServerTLSLayer")][-1:] and "TunnelLayer" in [c.name for _, c in ctx.model.mro(PT, "ServerTLSLayer")], "ServerTLSLayer no longer derives from tunnel.TunnelLayer")
+    # every OpenSSL error-queue entry the module tells apart (3-tuples of strings anywhere in layers/tls.py) is a world of its own, so that
+    # each branch of the error classification is exercised whatever shape it has; the fixed kinds cover code that builds its tables otherwise
+    kinds = [(k, e, True) for k, e in HS_ERRORS]
+    covered = {e[0][-1] for _, e in HS_ERRORS if e}
+    for node in ast.walk(ctx.model.module(PT).tree):
+        if isinstance(node, ast.Tuple) and len(node.elts) == 3 and all(isinstance(x, ast.Constant) and isinstance(x.value, str) for x in node.elts):
+            entry = tuple(x.value for x in node.elts)
+            if entry not in covered:
+                covered.add(entry)
+                kinds.append((f"error queue ending in {entry!r}", ([entry],), False))
+    for kind, hs_error, full in kinds:
+        problems = {}  # aspect -> (where, text)
+        n = 0
+        for pending in (True, False) if full else (True,):
+            for data in (b"\x16\x03\x03\x00\x02\x02\x28", b"\x15\x03\x03\xff\x80\x81", b"HTTP/1.1 400 Bad Request\r\n", b"")[: 4 if full else 2]:
+                log, layer, server, cmd, crash = _failed_handshake(env, hs_error, pending, data)
                 n += 1
                 ctx.paths += 1
-                loads = [e for e in t if e[0] == "callx"]
-                ret = [e for e in t if e[0] == "ret"]
-                assigns = [e for e in t[: index_of(t, lambda e: e[0] == "callx")] if e[0] == "assignx"]
-                ok = len(loads) == 1 and len(ret) == 1 and isinstance(ret[0][1], ast.Name) and loads[0][1] == ret[0][1].id + LOAD
-                if ok:
-                    c = loads[0][2]
-                    a = [norm(x) for x in c.args] + [f"{k.arg}={norm(k.value)}" for k in c.keywords]
-                    ok = a in (["ca_pemfile", "ca_path"], ["cafile=ca_pemfile", "capath=ca_path"], ["ca_pemfile", "capath=ca_path"])
-                if ok:
-                    if ca_path is None and ca_pemfile is None:
-                        ok = len(assigns) == 1 and assigns[0][1] == "ca_pemfile" and isinstance(assigns[0][2], ast.Call) and call_name(assigns[0][2]) == "certifi.where"
-                    else:
-                        ok = not assigns
-                bad += not ok
-            ctx.require(n > 0, f"create_proxy_server_context: no feasible returning path for {env}")
-            ctx.check(bad == 0, "R15.3", where, f"trust store with ca_path={ca_path!r}, ca_pemfile={ca_pemfile!r}",
-                      f"{bad} of {n} returning path(s) do not load exactly the configured trust store (certifi's bundle only when nothing is configured)",
-                      desc=f"ca_path={ca_path!r}, ca_pemfile={ca_pemfile!r}: load_verify_locations(ca_pemfile, ca_path)" + (" after certifi.where()" if ca_path is None and ca_pemfile is None else ""))
-    # option names
-    tss = ctx.func(T, "TlsConfig.tls_start_server")
-    create = calls_in(tss, "net_tls.create_proxy_server_context")[0]
-    kw = {k.arg: norm(k.value) for k in create.keywords}
-    ctx.check(kw.get("ca_path") == "ctx.options.ssl_verify_upstream_trusted_confdir" and kw.get("ca_pemfile") == "ctx.options.ssl_verify_upstream_trusted_ca", "R15.3",
-              (T, "TlsConfig.tls_start_server", create), "ca_path/ca_pemfile from the ssl_verify_upstream_trusted_* options",
-              f"trust store arguments are {kw.get('ca_path')} / {kw.get('ca_pemfile')}", desc="TLS: trust store options wired")
-    qss = ctx.func(T, "TlsConfig.quic_start_server")
-    res, eng = traces_of(qss, FlowSpec(keep=lambda ev: ev[0] == "assignx" and ev[1].startswith("tls_start.settings.ca_") or ev[0] == "cond" and INSECURE in ev[1], assign_nodes=True, implicit_raises=False))
-    bad = 0
-    n = 0
-    for t, how, st in res:
-        if how != "return" or not any(e[0] == "cond" for e in t):
-            continue
-        n += 1
-        vals = {e[1]: norm(e[2]) for e in t if e[0] == "assignx"}
-        bad += vals != {"tls_start.settings.ca_path": "ctx.options.ssl_verify_upstream_trusted_confdir", "tls_start.settings.ca_file": "ctx.options.ssl_verify_upstream_trusted_ca"}
-    ctx.require(n > 0, "quic_start_server: no configuring path")
-    ctx.check(bad == 0, "R15.3", (T, "TlsConfig.quic_start_server", qss), "QUIC ca_path/ca_file from the ssl_verify_upstream_trusted_* options",
-              f"{bad} path(s) do not configure the trust store options for QUIC", desc="QUIC: trust store options wired")
-    ctx.expect_instances("R15.3", 6)
+                world = f"[{kind}, {'the child layer asked for the connection' if pending else 'connection opened eagerly'}, {len(data)} bytes received]"
+                ys = [e[1] for e in log if e[0] == "yield"]
+                child = [e[1] for e in log if e[0] == "child"]
+                err = server.__dict__.get("error")
+                failed = [y for y in ys if _is(y, "TlsFailedServerHook")]
+                closes = [y for y in ys if _is(y, "CloseConnection") and y.__dict__.get("connection") is server]
+                state = layer.__dict__.get("tunnel_state")
+                state_name = state[2] if isinstance(state, tuple) and len(state) == 4 and state[0] == "$enum" else repr(state)
+                reported = bool(failed or closes or (isinstance(err, str) and err) or state_name == "CLOSED")
+                if crash:
+                    problems.setdefault("raises", (_where(ctx, PT, "TLSLayer.receive_handshake_data"), f"{world} the layer raises {crash}"))
+                    continue
+                if not reported:
+                    problems.setdefault("reported", (_where(ctx, PT, "TLSLayer.receive_handshake_data"),
+                                                     f"{world} the failed handshake is not treated as an error at all (tunnel state {state_name}, no hook, no close): a failed verification goes unnoticed"))
+                    continue
+                if not (isinstance(err, str) and err):
+                    problems.setdefault("error text", (_where(ctx, PT, "TLSLayer.on_handshake_error"), f"{world} conn.error is {err!r} after the failed handshake"))
+                hooks = [y._cls for y in ys if isinstance(y, Rec) and (y.isa("StartHook") or y._cls.endswith("Hook"))]
+                if len(failed) != 1 or failed[0].__dict__.get("data") is None or getattr(failed[0].__dict__.get("data"), "__dict__", {}).get("conn") is not server:
+                    problems.setdefault("hook", (_where(ctx, PT, "TLSLayer.on_handshake_error"), f"{world} hooks fired: {hooks or 'none'}; expected exactly one TlsFailedServerHook for the server connection"))
+                elif any(h in ("TlsEstablishedServerHook", "TlsEstablishedClientHook", "TlsFailedClientHook") for h in hooks):
+                    problems.setdefault("hook", (_where(ctx, PT, "TLSLayer.on_handshake_error"), f"{world} hooks fired: {hooks}; a failed server handshake fires TlsFailedServerHook only"))
+                if not closes:
+                    problems.setdefault("close", (_where(ctx, TU, "TunnelLayer.on_handshake_error"), f"{world} the connection is not closed (commands: {[getattr(y, '_cls', repr(y)) for y in ys]})"))
+                if state_name != "CLOSED":
+                    problems.setdefault("tunnel state", (_where(ctx, TU, "TunnelLayer._handshake_finished"), f"{world} the tunnel is {state_name} after the failed handshake, not CLOSED"))
+                sent = [y for y in ys if _is(y, "SendData")]
+                if sent:
+                    problems.setdefault("data sent", (_where(ctx, PT, "TLSLayer.receive_handshake_data"), f"{world} {len(sent)} SendData command(s) after the failed handshake"))
+                if pending:
+                    occ = [c for c in child if _is(c, "OpenConnectionCompleted")]
+                    ok = len(child) == 1 and len(occ) == 1 and occ[0].__dict__.get("command") is cmd and isinstance(occ[0].__dict__.get("reply"), str) and occ[0].__dict__.get("reply")
+                    if not ok:
+                        seen = [f"{c._cls}(reply={c.__dict__.get('reply')!r})" if _is(c, "OpenConnectionCompleted") else getattr(c, "_cls", repr(c)) for c in child]
+                        problems.setdefault("completion", (_where(ctx, TU, "TunnelLayer._handshake_finished"),
+                                                           f"{world} the child layer receives {seen or 'nothing'}; expected exactly OpenConnectionCompleted(<its command>, <the error text>)"))
+                    elif failed and closes:
+                        i_occ = next(i for i, e in enumerate(log) if e[0] == "child")
+                        i_hook = next(i for i, e in enumerate(log) if e[0] == "yield" and e[1] is failed[0])
+                        i_close = next(i for i, e in enumerate(log) if e[0] == "yield" and e[1] is closes[0])
+                        if not (i_hook < i_occ and i_close < i_occ):
+                            problems.setdefault("order", (_where(ctx, TU, "TunnelLayer._handle_event"), f"{world} the child layer is told about the failure before the tls_failed hook fired / the connection was closed"))
+                elif child:
+                    problems.setdefault("completion", (_where(ctx, TU, "TunnelLayer._handshake_finished"), f"{world} the child layer receives {[getattr(c, '_cls', repr(c)) for c in child]} although it waits for nothing"))
+        for aspect, (where, text) in problems.items():
+            ctx.fail("R15.4", where, f"failed server handshake ({kind}): {aspect}", text)
+        if not problems:
+            ctx.ok("R15.4", f"handshake SSL.Error [{kind}]: conn.error, one TlsFailedServerHook, close, tunnel CLOSED, OpenConnectionCompleted(cmd, err) after them, nothing sent ({n} runs)")
 
 
-def _r15_4(ctx):
+def _r15_4_http(ctx):
     m = ctx.model
-    # (a) receive_handshake_data
-    rhd = ctx.func(PT, "TLSLayer.receive_handshake_data")
-    spec = FlowSpec(keep=lambda ev: ev[0] in ("except", "ret") or (ev[0] == "assign" and ev[1] == "err"), ret_nodes=True)
-    res, eng = traces_of(rhd, spec)
-    n = bad = 0
-    for t, how, st in res:
-        if ("except", "Error") not in t:
-            continue
-        n += 1
-        ctx.paths += 1
-        i = t.index(("except", "Error"))
-        ret = [e for e in t[i:] if e[0] == "ret"]
-        ok = how == "return" and len(ret) == 1 and isinstance(ret[0][1], ast.Tuple) and len(ret[0][1].elts) == 2
-        if ok:
-            a, b = ret[0][1].elts
-            ok = isinstance(a, ast.Constant) and a.value is False and isinstance(b, ast.Name) and ("assign", b.id) in t[i:]
-        bad += not ok
-    ctx.require(n > 0, "TLSLayer.receive_handshake_data: no path through an `except SSL.Error` handler (anchor changed)")
-    # handler order: the WantReadError handler (a subclass of SSL.Error) must come first, and do_handshake must be inside the try
-    tries = [s for s in walk_in_order(rhd) if isinstance(s, ast.Try) and any(call_name(c).endswith(".do_handshake") for st_ in s.body for c in calls_in(st_))]
-    ctx.require(len(tries) == 1, "TLSLayer.receive_handshake_data: do_handshake() is not inside exactly one try")
-    ctx.check(bad == 0, "R15.4", (PT, "TLSLayer.receive_handshake_data", rhd), "except SSL.Error -> return (False, err)",
-              f"{bad} of {n} path(s) through the SSL.Error handler do not answer (False, <error text>): a failed verification is not reported as a handshake error",
-              desc=f"SSL.Error -> (False, err) on {n} paths")
-    # (b) TunnelLayer._handle_event
-    he = ctx.func(TU, "TunnelLayer._handle_event")
-    OHE, HF, RD = "self.on_handshake_error", "self._handshake_finished", "self.receive_data"
-    res, eng = traces_of(he, FlowSpec(keep=lambda ev: (ev[0] == "yield_from" and ev[1] in (OHE, HF, RD)) or (ev[0] in ("cond", "assign") and ev[1] == "err"), implicit_raises=False))
-    n = bad = 0
-    for t, how, st in res:
-        if not consistent(t, ("err",)) or not any(e[0] == "cond" and e[1] == "err" and e[2] for e in t):
-            continue
-        n += 1
-        ctx.paths += 1
-        names = [e[1] for e in t if e[0] == "yield_from"]
-        bad += not (names.count(OHE) == 1 and names.count(HF) == 1 and names.index(OHE) < names.index(HF) and RD not in names)
-    ctx.require(n > 0, "TunnelLayer._handle_event: no path with a handshake error (`if err:`) found")
-    ctx.check(bad == 0, "R15.4", (TU, "TunnelLayer._handle_event", he), "err -> on_handshake_error(err); _handshake_finished(err)",
-              f"{bad} of {n} error path(s) do not run on_handshake_error before _handshake_finished (or deliver data)", desc=f"handshake error -> on_handshake_error, _handshake_finished on {n} paths")
-    # (c) on_handshake_error chain
-    for rel, qual in ((PT, "ServerTLSLayer"), (PT, "TLSLayer"), (TU, "TunnelLayer")):
-        fn = ctx.func(rel, qual + ".on_handshake_error")
-        ctx.require(m.method(rel, qual, "on_handshake_error")[1] is fn, f"{qual}.on_handshake_error is not what the MRO resolves")
-        errp = fn.args.args[1].arg
-        res, eng = traces_of(fn, FlowSpec(keep=lambda ev: ev[0] in ("yield", "yield_from", "assignx", "cond"), assign_nodes=True, implicit_raises=False))
-        bad = 0
-        for t, how, st in res:
-            ctx.paths += 1
-            ys = [e[1] for e in t if e[0] in ("yield", "yield_from")]
-            if qual == "TunnelLayer":
-                ok = "CloseConnection" in ys
-            else:
-                ok = ys and ys[-1] == "super().on_handshake_error"
-            if qual == "TLSLayer":
-                ok = ok and any(e[0] == "assignx" and e[1] == "self.conn.error" and isinstance(e[2], ast.Name) and e[2].id == errp for e in t)
-                is_client = [e[2] for e in t if e[0] == "cond" and e[1] == "self.conn == self.context.client"]
-                ok = ok and len(is_client) == 1 and (("TlsFailedClientHook" in ys) if is_client[0] else ("TlsFailedServerHook" in ys))
-            bad += not ok or how != "return"
-        what = {"ServerTLSLayer": "-> super().on_handshake_error(err)", "TLSLayer": "conn.error = err; TlsFailed*Hook; super()", "TunnelLayer": "CloseConnection(tunnel_connection)"}[qual]
-        ctx.check(bad == 0, "R15.4", (rel, qual + ".on_handshake_error", fn), f"{qual}.on_handshake_error: {what}",
-                  f"{bad} path(s) of the error handler chain skip a step (error text on the connection, tls_failed hook, close)", desc=f"{qual}.on_handshake_error: {what}")
-    for fn, rel, q in ((ctx.func(PT, "TLSLayer.on_handshake_error"), PT, "TLSLayer"), (ctx.func(PT, "ServerTLSLayer.on_handshake_error"), PT, "ServerTLSLayer")):
-        for c in calls_in(fn, "super().on_handshake_error"):
-            ctx.require(len(c.args) == 1 and isinstance(c.args[0], ast.Name) and c.args[0].id == fn.args.args[1].arg, f"{q}.on_handshake_error passes something else than err to super()")
-    ctx.require([c.name for _, c in m.mro(PT, "ServerTLSLayer")][:3] == ["ServerTLSLayer", "TLSLayer", "TunnelLayer"], "ServerTLSLayer MRO changed")
-    # (d) _handshake_finished
-    hf = ctx.func(TU, "TunnelLayer._handshake_finished")
-    errp = hf.args.args[1].arg
-    res, eng = traces_of(hf, FlowSpec(keep=lambda ev: ev[0] in ("cond", "assignx", "callx") and (ev[0] != "callx" or ev[1].endswith("OpenConnectionCompleted")), assign_nodes=True, call_nodes=True, implicit_raises=False))
-    n = bad = 0
-    for t, how, st in res:
-        if not any(e[0] == "cond" and e[1] == errp and e[2] for e in t):
-            continue
-        n += 1
-        ctx.paths += 1
-        states = [norm(e[2]) for e in t if e[0] == "assignx" and e[1] == "self.tunnel_state"]
-        ok = states == ["TunnelState.CLOSED"]
-        if any(e[0] == "cond" and e[1] == "self.command_to_reply_to" and e[2] for e in t):
-            occ = [e[2] for e in t if e[0] == "callx"]
-            ok = ok and len(occ) == 1 and len(occ[0].args) == 2 and norm(occ[0].args[0]) == "self.command_to_reply_to" and norm(occ[0].args[1]) == errp
-        bad += not ok
-    ctx.require(n > 0, "_handshake_finished: no error path")
-    ctx.check(bad == 0, "R15.4", (TU, "TunnelLayer._handshake_finished", hf), "err -> tunnel CLOSED, OpenConnectionCompleted(cmd, err)",
-              f"{bad} of {n} error path(s) leave the tunnel open or answer the pending OpenConnection without the error", desc="_handshake_finished(err): CLOSED + OpenConnectionCompleted(cmd, err)")
     # (e) HTTP layer
     # HttpClient: the outcome of OpenConnection is followed by value (symbol `err`), whatever the local is called
     hc = ctx.func(HT, "HttpClient._handle_event")
@@ -562,20 +1371,25 @@ def _r15_4(ctx):
         ctx.require(n > 0, f"{q}: connection error path not found after inlining make_server_connection")
         ctx.check(bad == 0, "R15.4", (HT, q, fn), f"{q}: no SendHttp after a failed make_server_connection",
                   f"{bad} of {n} path(s) send HTTP messages after the server connection failed (e.g. certificate verification)", desc=f"{q}: nothing sent after a failed connection ({n} paths)")
-    ctx.expect_instances("R15.4", 11)
 
 
 def check(ctx):
-    ctx.rule("R15.1", "verify mode: VERIFY_PEER iff not ssl_insecure, installed without callback; QUIC CERT_REQUIRED iff not ssl_insecure")
-    ctx.rule("R15.2", "host name / IP of the SNI bound to the connection's verify parameters with strict host flags; no SNI + verification -> raise")
-    ctx.rule("R15.3", "trust store: configured CA file/dir always loaded, certifi only when none is configured")
-    ctx.rule("R15.4", "failed handshake -> (False, err) -> on_handshake_error/tls_failed hook/close -> OpenConnectionCompleted(err) -> CONNECT_FAILED, nothing sent")
+    ctx.rule("R15.1", "verify mode in force on the server connection: VERIFY_PEER (no accepting callback) iff not ssl_insecure; QUIC CERT_REQUIRED iff not ssl_insecure")
+    ctx.rule("R15.2", "host name / IP of the SNI in force on the connection's own verify parameters with strict host flags; refused identity or no SNI + verification -> raise")
+    ctx.rule("R15.3", "trust store: exactly the configured CA file/dir loaded, certifi only when none is configured")
+    ctx.rule("R15.4", "failed handshake -> conn.error, tls_failed hook, close, tunnel CLOSED, OpenConnectionCompleted(err) -> CONNECT_FAILED, nothing sent")
     ctx.trust("OpenSSL X509 verification (chain building, validity, host/IP matching under the configured flags); aioquic certificate verification")
-    ctx.trust("SSL.WantReadError / ZeroReturnError are subclasses of SSL.Error (pyOpenSSL)")
-    _r15_1(ctx)
-    _r15_2(ctx)
-    _r15_3(ctx)
-    _r15_4(ctx)
+    ctx.trust("the model of pyOpenSSL used by the interpretation: Context/Connection.set_verify (last call wins), load_verify_locations, X509_VERIFY_PARAM_set_hostflags / "
+              "set1_host / set1_ip (replace), _openssl_assert raises on a false argument, SSL.WantReadError / ZeroReturnError are subclasses of SSL.Error")
+    ctx.bounds.append("configuration worlds: ssl_insecure x {DNS, IPv4, IPv6, no SNI} x trust options set/unset x identity accepted/refused; handshake failure worlds: "
+                      f"{len(HS_ERRORS)} SSL.Error kinds x pending OpenConnection yes/no x 4 received byte strings + every error-queue entry named in layers/tls.py x 2 byte strings")
+    env = _Env(ctx)
+    ctx.guard(_r15_1, ctx, env)
+    ctx.guard(_r15_2, ctx, env)
+    ctx.guard(_r15_3, ctx, env)
+    ctx.guard(_r15_4_layers, ctx, env)
+    ctx.guard(_r15_4_http, ctx)
+    ctx.expect_instances("R15.4", len(HS_ERRORS) + 5)
 
 
 MUTANTS = [
@@ -595,6 +1409,13 @@ MUTANTS = [
     Mutant("trust-store-not-loaded-for-dir", NT, "    try:\n        context.load_verify_locations(ca_pemfile, ca_path)\n", "    try:\n        if ca_pemfile:\n            context.load_verify_locations(ca_pemfile, ca_path)\n", "R15.3"),
     Mutant("trust-options-swapped", T, "            ca_path=ctx.options.ssl_verify_upstream_trusted_confdir,\n            ca_pemfile=ctx.options.ssl_verify_upstream_trusted_ca,\n",
            "            ca_path=ctx.options.ssl_verify_upstream_trusted_ca,\n            ca_pemfile=ctx.options.ssl_verify_upstream_trusted_confdir,\n", "R15.3"),
+    Mutant("connection-level-verify-none", T, "        tls_start.ssl_conn = SSL.Connection(ssl_ctx)\n        if server.sni:\n",
+           "        tls_start.ssl_conn = SSL.Connection(ssl_ctx)\n        tls_start.ssl_conn.set_verify(SSL.VERIFY_NONE, None)\n        if server.sni:\n", "R15.1"),
+    Mutant("derived-sni-not-verified", T, "        if server.sni is None:\n            server.sni = client.sni or server.address[0]\n\n        if not server.alpn_offers:\n            if client.alpn_offers:\n                if ctx.options.http2:",
+           "        if server.sni is None:\n            server.sni = client.sni or server.address[0]\n            verify = net_tls.Verify.VERIFY_NONE\n\n        if not server.alpn_offers:\n            if client.alpn_offers:\n                if ctx.options.http2:", "R15.2"),
+    Mutant("system-trust-store-added", NT, "        context.load_verify_locations(ca_pemfile, ca_path)\n", "        context.load_verify_locations(ca_pemfile, ca_path)\n        context.set_default_verify_paths()\n", "R15.3"),
+    Mutant("quic-server-name-dropped", QS, "        server_name=server_name,\n", "        server_name=None,\n", "R15.2"),
+    Mutant("peer-alert-swallowed", PT, "                err = last_err[2]\n", "                return False, None\n", "R15.4"),
     Mutant("ssl-error-treated-as-done", PT, "                err = f\"OpenSSL {e!r}\"\n            return False, err\n", "                err = f\"OpenSSL {e!r}\"\n                return True, None\n            return False, err\n", "R15.4"),
     Mutant("tunnel-skips-on-handshake-error", TU, "                        yield from self.on_handshake_error(err)\n                    if done or err:", "                        pass\n                    if done or err:", "R15.4"),
     Mutant("tls-failed-hook-dropped", PT, "        else:\n            yield TlsFailedServerHook(TlsData(self.conn, self.context, self.tls))\n", "        else:\n            pass\n", "R15.4"),
